@@ -1,37 +1,30 @@
-(* Component `lowerbool`: semantic correctness of the model of bool_expr_branch
-   (LowerBoolModel.lower_branch) on the Turing-jump machine, for ALL expression trees (unbounded
-   depth) over comparisons of safe operands, bool literals, bool locals, not, and, or
-   (F_proved = what `vars_ok` accepts; arithmetic comparison operands are in the model and in the
-   textual correspondence only), every word size w >= 2, arbitrary surrounding code, arbitrary
-   straight-line continuations with or without a final goto.
+(* Component `lowerbool`: semantic correctness of the model of bool_expr_branch / eval_expr on int
+   operands / truth_is_defeat (LowerBoolModel) on the Turing-jump machine, for ALL expression trees
+   of F_model (unbounded depth): comparisons of int operands (literals, locals, + - *, unary - +),
+   bool literals, bool locals, not, and, or; every word size w >= 2, arbitrary surrounding code,
+   arbitrary straight-line continuations with or without a final goto.
 
    Structure
      A  placement of abstract lines in an abstract code memory (`placed`), continuations
      B  freshness of the allocated labels; two-pass resolution yields a placement
-     C  source semantics (beval), memory effect (run_mem), frame conditions
-     D  lower_runs: the induction over the expression tree (uses the idiom theorems of Idioms.v
-        with the table entries of GenTables.v)
-     E  the theorems stated on `resolve`d code: branch_lowering_correct (goto/goto),
-        if_block_lowering_correct (fall-through/goto else), value_lowering_correct (set 1/set 0)
+     C  source semantics (sval, beval), memory effect (eval_mem, run_mem), frame conditions
+        (regs_ok, room_ok, agree lo hi: only r0, r1 and the temporaries' area [lo, hi) change)
+     D  the lowered code on the machine:
+          pop_props, pair_props, eval_opd_props   operands with the keep / push / pop discipline
+          lower_runs                              induction over the boolean tree (idiom theorems of
+                                                  Idioms.v with the table entries of GenTables.v)
+          value_runs, bool_value_runs             boolean values
+          defeat_static_runs, defeat_virtual_*    truth_is_defeat
+     E  the theorems stated on `resolve`d code: arith_lowering_correct, branch_lowering_correct
+        (goto/goto), if_block_lowering_correct (fall-through/goto else), value_lowering_correct
+        (set 1/set 0), truth_is_defeat_correct, three_lowerings_agree; eval_opd_stores
+        (temps_needed is exact)
      F  satisfiability examples *)
 From Coq Require Import ZArith List Bool Lia.
-From HidV Require Import Machine Halts WordLemmas MemLemmas GenTables OpTables Idioms LowerBoolModel.
+From HidV Require Import Machine Halts WordLemmas MemLemmas GenTables OpTables Idioms TimeTravel LowerBoolModel.
 Import ListNotations.
 Open Scope Z_scope.
 Ltac Zify.zify_post_hook ::= Z.to_euclidean_division_equations.
-
-(* the safe-operand instance of get_expr_value / pop_value: a literal needs no code, a local is
-   read by `lwso [r], [fp], -off` *)
-Definition fetch (E : env) (r : reg) (o : iopd) : list aline * sym :=
-  match o with
-  | OLit z => ([], SLit z)
-  | OVar i => ([AInstr (ALwso r (SReg RFp) (SLit (- int_off E i)))], SReg r)
-  | OArith _ _ _ => ([], SLit 0)
-  end.
-(* with safe operands nothing is kept: right operand into r1, then left operand into r0 *)
-Lemma compare_operands_safe E a b : is_safe a = true -> is_safe b = true ->
-  compare_operands E a b = (fst (fetch E R1 b) ++ fst (fetch E R0 a), snd (fetch E R0 a), snd (fetch E R1 b)).
-Proof. destruct a, b; try discriminate; reflexivity. Qed.
 
 (* ================================================================================= *)
 (* A  sizes, placement, continuations                                                 *)
@@ -152,15 +145,23 @@ Ltac defl := repeat progress (rewrite ?deflabels_app; cbn [deflabels app]).
 
 Lemma pop_value_nolabels r b : deflabels (fst (pop_value r b)) = [].
 Proof. destruct b; reflexivity. Qed.
+Lemma finish_opd_nolabels E top r keep code :
+  deflabels code = [] -> deflabels (fst (finish_opd E top r keep code)) = [].
+Proof. intros H. unfold finish_opd. destruct keep; cbn [fst]; defl; rewrite H; reflexivity. Qed.
 Lemma eval_opd_nolabels E o : forall top r keep, deflabels (fst (eval_opd E top r o keep)) = [].
 Proof.
-  induction o as [z|i|op x IHx y IHy]; intros top r keep; try reflexivity.
-  cbn [eval_opd].
-  specialize (IHx top R0 (negb (is_safe y))). destruct (eval_opd E top R0 x (negb (is_safe y))) as [c1 lb].
-  specialize (IHy (top_after top lb) R1 false). destruct (eval_opd E (top_after top lb) R1 y false) as [c2 rb].
-  pose proof (pop_value_nolabels R1 rb) as P1. destruct (pop_value R1 rb) as [c2' rhs].
-  pose proof (pop_value_nolabels R0 lb) as P0. destruct (pop_value R0 lb) as [c3 lhs].
-  cbn [fst] in *. destruct keep; cbn [fst]; defl; rewrite ?IHx, ?IHy, ?P1, ?P0; reflexivity.
+  induction o as [z|i|op x IHx y IHy|u x IHx]; intros top r keep; try reflexivity.
+  - cbn [eval_opd].
+    specialize (IHx top R0 (negb (is_safe y))). destruct (eval_opd E top R0 x (negb (is_safe y))) as [c1 lb].
+    specialize (IHy (top_after top lb) R1 false). destruct (eval_opd E (top_after top lb) R1 y false) as [c2 rb].
+    pose proof (pop_value_nolabels R1 rb) as P1. destruct (pop_value R1 rb) as [c2' rhs].
+    pose proof (pop_value_nolabels R0 lb) as P0. destruct (pop_value R0 lb) as [c3 lhs].
+    cbn [fst] in *. apply finish_opd_nolabels. defl. rewrite IHx, IHy, P1, P0. reflexivity.
+  - cbn [eval_opd].
+    specialize (IHx top r false). destruct (eval_opd E top r x false) as [c b].
+    pose proof (pop_value_nolabels r b) as P. destruct (pop_value r b) as [c' v].
+    cbn [fst] in *. apply finish_opd_nolabels. defl. rewrite IHx, P.
+    destruct u; [reflexivity | destruct (is_state_of r v); reflexivity].
 Qed.
 Lemma compare_operands_nolabels E a b : deflabels (fst (fst (compare_operands E a b))) = [].
 Proof.
@@ -377,10 +378,36 @@ Proof. intros N. apply lookup_notin. rewrite deflabels_labdefs. exact N. Qed.
 (* ================================================================================= *)
 (* C  source semantics, memory effect, frame conditions                               *)
 (* ================================================================================= *)
+(* the bubble eval_opd returns, in closed form *)
+Definition bub_of (E : env) (top : Z) (rg : reg) (o : iopd) (keep : bool) : bubble :=
+  match o with
+  | OLit z => BuImm z
+  | OVar i => BuLocal (int_off E i)
+  | _ => if keep then BuPushed (top + wsize E) else BuReg rg
+  end.
+Lemma eval_opd_bub E o top rg keep : snd (eval_opd E top rg o keep) = bub_of E top rg o keep.
+Proof.
+  destruct o as [z|i|op x y|u x]; try reflexivity; cbn [eval_opd bub_of].
+  - destruct (eval_opd E top R0 x (negb (is_safe y))) as [c1 lb].
+    destruct (eval_opd E (top_after top lb) R1 y false) as [c2 rb].
+    destruct (pop_value R1 rb) as [c2' rhs]. destruct (pop_value R0 lb) as [c3 lhs].
+    unfold finish_opd. destruct keep; reflexivity.
+  - destruct (eval_opd E top rg x false) as [c b]. destruct (pop_value rg b) as [c' v].
+    unfold finish_opd. destruct keep; reflexivity.
+Qed.
+Lemma top_after_bub E top rg o keep :
+  top_after top (bub_of E top rg o keep) = top + Z.of_nat (pushed o keep) * wsize E.
+Proof.
+  unfold pushed. destruct o, keep; cbn [bub_of top_after is_safe andb negb]; change (Z.of_nat 0) with 0; change (Z.of_nat 1) with 1; lia.
+Qed.
+Lemma room_le (a b : nat) (wd X : Z) : 0 <= wd -> (a <= b)%nat -> Z.of_nat b * wd <= X -> Z.of_nat a * wd <= X.
+Proof. intros Hw L H. assert (Z.of_nat a * wd <= Z.of_nat b * wd) by (apply Z.mul_le_mono_nonneg_r; lia). lia. Qed.
+
 Section Sem.
 Variable w : Z.
 Variable R : regmap.
 Variable E : env.
+Variable lo : Z.                         (* lowest address the pushed temporaries may occupy *)
 Notation W := (Machine.W w).
 Notation wrap := (Machine.wrap w).
 Notation sgn := (Machine.sgn w).
@@ -389,18 +416,22 @@ Notation sw := (Machine.sw w).
 Notation r0 := (a_r0 R).
 Notation r1 := (a_r1 R).
 Notation fp := (a_fp R).
+Notation ra := (regaddr R).
 
 (* the frame pointer *)
 Definition FP (m : mem) : Z := lw m fp.
 (* SOURCE SEMANTICS.  An int local is the word at [fp] - offset read as a signed number, a
-   literal is itself; a bool local is true iff its byte is non-zero; comparisons are signed;
-   and/or/not are the boolean connectives (short-circuiting is invisible in the VALUE because
-   operands have no side effects; it is visible in `run_mem` below). *)
+   literal is itself, + - * and unary - wrap to the word size (two's complement); a bool local
+   is true iff its byte is non-zero; comparisons are signed; and/or/not are the boolean
+   connectives (short-circuiting is invisible in the VALUE because operands have no side
+   effects; it is visible in `run_mem` below). *)
 Fixpoint sval (m : mem) (o : iopd) : Z :=
   match o with
   | OLit z => z
   | OVar i => sgn (lw m (FP m - int_off E i))
-  | OArith op x y => sgn (wrap (arith_sem op (sval m x) (sval m y)))     (* two's-complement wrap *)
+  | OArith op x y => sgn (wrap (arith_sem op (sval m x) (sval m y)))
+  | OUn UNeg x => sgn (wrap (- sval m x))
+  | OUn UPos x => sval m x
   end.
 Definition bval (m : mem) (j : nat) : Z := lb m (FP m - bool_off E j).
 Fixpoint beval (m : mem) (e : bexpr) : bool :=
@@ -412,17 +443,62 @@ Fixpoint beval (m : mem) (e : bexpr) : bool :=
   | BAnd e1 e2 => beval m e1 && beval m e2
   | BOr e1 e2 => beval m e1 || beval m e2
   end.
+(* the value as a machine word: ⟦o⟧ mod 2^(8w) *)
+Definition wval (m : mem) (o : iopd) : Z :=
+  match o with
+  | OLit z => wrap z
+  | OVar i => lw m (FP m - int_off E i)
+  | OArith op x y => wrap (arith_sem op (sval m x) (sval m y))
+  | OUn UNeg x => wrap (- sval m x)
+  | OUn UPos x => wrap (sval m x)
+  end.
 
-(* MEMORY EFFECT of evaluating e by the lowered code: exactly the register loads of the atoms
-   that short-circuit evaluation reaches, left to right (right operand into r1, then left
-   operand into r0; a bool local into r1).  Atoms after the deciding one leave no trace. *)
-Definition fetch_mem (ra : Z) (o : iopd) (m : mem) : mem :=
-  match o with OVar i => sw m ra (lw m (FP m - int_off E i)) | _ => m end.
+(* MEMORY EFFECT of the lowered operand code, as a function (mirrors eval_opd) *)
+Definition pop_mem (r : reg) (b : bubble) (m : mem) : mem :=
+  match b with BuLocal off | BuPushed off => sw m (ra r) (lw m (FP m - off)) | _ => m end.
+Definition push_mem (keep : bool) (top : Z) (rg : reg) (m : mem) : mem :=
+  if keep then sw m (FP m - (top + w)) (lw m (ra rg)) else m.
+Fixpoint eval_mem (top : Z) (rg : reg) (o : iopd) (keep : bool) (m : mem) : mem :=
+  match o with
+  | OLit _ | OVar _ => m
+  | OArith op x y =>
+      let kx := negb (is_safe y) in
+      let bx := bub_of E top R0 x kx in
+      let m1 := eval_mem top R0 x kx m in
+      let top1 := top_after top bx in
+      let m2 := eval_mem top1 R1 y false m1 in
+      let m3 := pop_mem R1 (bub_of E top1 R1 y false) m2 in
+      let m4 := pop_mem R0 bx m3 in
+      push_mem keep top rg (sw m4 (ra rg) (wval m (OArith op x y)))
+  | OUn u x =>
+      let m1 := eval_mem top rg x false m in
+      let m2 := pop_mem rg (bub_of E top rg x false) m1 in
+      push_mem keep top rg
+        match u, x with
+        | UPos, OLit z => sw m2 (ra rg) (wrap z)            (* mov [rg], z *)
+        | UPos, _ => m2                                     (* already in [rg]: no instruction *)
+        | UNeg, _ => sw m2 (ra rg) (wval m (OUn UNeg x))
+        end
+  end.
+(* the operand pair of a comparison / binary operator: left into r0 (kept if the right operand is
+   unsafe), right into r1, pop right, pop left *)
+Definition pair_mem (top : Z) (x y : iopd) (m : mem) : mem :=
+  let kx := negb (is_safe y) in
+  let bx := bub_of E top R0 x kx in
+  let m1 := eval_mem top R0 x kx m in
+  let top1 := top_after top bx in
+  let m2 := eval_mem top1 R1 y false m1 in
+  let m3 := pop_mem R1 (bub_of E top1 R1 y false) m2 in
+  pop_mem R0 bx m3.
+
+(* MEMORY EFFECT of evaluating e by the lowered branch code: exactly the operand evaluations of
+   the atoms that short-circuit evaluation reaches, left to right.  Atoms after the deciding one
+   leave no trace. *)
 Fixpoint run_mem (e : bexpr) (m : mem) : mem :=
   match e with
   | BLit _ => m
   | BVar j => sw m r1 (bval m j)
-  | BCmp _ a b => fetch_mem r0 a (fetch_mem r1 b m)
+  | BCmp _ a b => pair_mem (stack_top E) a b m
   | BNot e1 => run_mem e1 m
   | BAnd e1 e2 => let m1 := run_mem e1 m in if beval m e1 then run_mem e2 m1 else m1
   | BOr e1 e2 => let m1 := run_mem e1 m in if beval m e1 then m1 else run_mem e2 m1
@@ -440,12 +516,9 @@ Fixpoint trace (m : mem) (e : bexpr) : list atom :=
   end.
 Definition atom_mem (m : mem) (x : atom) : mem :=
   match x with
-  | AtCmp a b => fetch_mem r0 a (fetch_mem r1 b m)
+  | AtCmp a b => pair_mem (stack_top E) a b m
   | AtVar j => sw m r1 (bval m j)
   end.
-
-(* short-circuiting, in the terms of the theorems below: when the left operand decides, the right
-   operand contributes no atom to the trace and no write to the memory *)
 Lemma short_circuit_and m e1 e2 : beval m e1 = false ->
   trace m (BAnd e1 e2) = trace m e1 /\ run_mem (BAnd e1 e2) m = run_mem e1 m.
 Proof. intros H. cbn [trace run_mem]. rewrite H. now rewrite app_nil_r. Qed.
@@ -453,164 +526,249 @@ Lemma short_circuit_or m e1 e2 : beval m e1 = true ->
   trace m (BOr e1 e2) = trace m e1 /\ run_mem (BOr e1 e2) m = run_mem e1 m.
 Proof. intros H. cbn [trace run_mem]. rewrite H. now rewrite app_nil_r. Qed.
 
-(* well-formed frame *)
-Record layout_ok (m : mem) : Prop := {
+(* ---------- well-formed frame ---------- *)
+(* the registers: in bounds, pairwise disjoint, below the stack area; fp holds a positive signed
+   address *)
+Record regs_ok (m : mem) : Prop := {
   lo_wf : wf_mem m;
   lo_r0 : 0 <= r0; lo_r1 : 0 <= r1; lo_fp : 0 <= fp;
   lo_i0 : inb m r0 w = true; lo_i1 : inb m r1 w = true; lo_if : inb m fp w = true;
   lo_d01 : r0 + w <= r1 \/ r1 + w <= r0;
   lo_d0f : r0 + w <= fp \/ fp + w <= r0;
   lo_d1f : r1 + w <= fp \/ fp + w <= r1;
+  lo_b0 : r0 + w <= lo; lo_b1 : r1 + w <= lo; lo_bf : fp + w <= lo;
   lo_F : 0 <= FP m < W / 2 }.
-(* [a, a+n) is disjoint from the words r0 and r1 *)
-Definition dj (a n : Z) : Prop := (a + n <= r0 \/ r0 + w <= a) /\ (a + n <= r1 \/ r1 + w <= a).
-(* a local of n bytes at frame offset off: in bounds, addressable as a signed offset, not a register *)
-Definition slot_ok (m : mem) (off n : Z) : Prop :=
-  0 < off <= W / 2 /\ 0 <= FP m - off /\ inb m (FP m - off) n = true /\ dj (FP m - off) n.
-(* F_proved: the operands the theorems cover are the SAFE ones.  Arithmetic operands are in the
-   model and in the textual correspondence, not (yet) in the theorems: opd_ok excludes them. *)
-Definition opd_ok (m : mem) (o : iopd) : Prop :=
+(* STACK ROOM at frame offset top: the area [lo, fp - top) below the stack top is inside the
+   state section and addressable by a signed offset from fp *)
+Record room_ok (top : Z) (m : mem) : Prop := {
+  ro_le : lo <= FP m - top;
+  ro_top : 0 <= top;
+  ro_half : FP m - lo <= W / 2;
+  ro_sz : FP m - top <= msize m }.
+(* [a, a+n) is disjoint from the words r0 and r1 and from the temporaries' area [lo, hi) *)
+Definition dj (hi a n : Z) : Prop :=
+  (a + n <= r0 \/ r0 + w <= a) /\ (a + n <= r1 \/ r1 + w <= a) /\ (a + n <= lo \/ hi <= a).
+(* a local of n bytes at frame offset off *)
+Definition slot_ok (hi : Z) (m : mem) (off n : Z) : Prop :=
+  0 < off <= W / 2 /\ 0 <= FP m - off /\ inb m (FP m - off) n = true /\ dj hi (FP m - off) n.
+(* F_proved for operands: everything in F_model (`/` and `%` are outside F_model) *)
+Definition op_ok (op : src_arith) : Prop := match op with SAdd | SSub | SMul => True | _ => False end.
+Fixpoint oexp_ok (hi : Z) (m : mem) (o : iopd) : Prop :=
   match o with
   | OLit z => - (W / 2) <= z < W / 2
-  | OVar i => slot_ok m (int_off E i) w
-  | OArith _ _ _ => False
+  | OVar i => slot_ok hi m (int_off E i) w
+  | OArith op x y => op_ok op /\ oexp_ok hi m x /\ oexp_ok hi m y
+  | OUn _ x => oexp_ok hi m x
   end.
-Lemma opd_ok_safe m o : opd_ok m o -> is_safe o = true.
-Proof. destruct o; cbn [opd_ok is_safe]; [reflexivity | reflexivity | intros []]. Qed.
+(* the stack top of the expression being lowered *)
+Definition HI (m : mem) : Z := FP m - stack_top E.
+Definition layout_ok (m : mem) : Prop := regs_ok m /\ room_ok (stack_top E) m.
+(* every local in bounds and above the stack top; every literal a word; room for the temporaries
+   of every comparison *)
 Fixpoint vars_ok (m : mem) (e : bexpr) : Prop :=
   match e with
   | BLit _ => True
-  | BVar j => slot_ok m (bool_off E j) 1
-  | BCmp _ a b => opd_ok m a /\ opd_ok m b
+  | BVar j => slot_ok (HI m) m (bool_off E j) 1
+  | BCmp _ a b => oexp_ok (HI m) m a /\ oexp_ok (HI m) m b /\ Z.of_nat (temps_cmp a b) * w <= HI m - lo
   | BNot e1 => vars_ok m e1
   | BAnd e1 e2 | BOr e1 e2 => vars_ok m e1 /\ vars_ok m e2
   end.
-(* FRAME CONDITION: m' differs from m at most in the words r0 and r1 *)
-Definition agree (m m' : mem) : Prop :=
+(* FRAME CONDITION: m' differs from m at most in the words r0 and r1 and in [lo, hi) *)
+Definition agree (hi : Z) (m m' : mem) : Prop :=
   msize m' = msize m /\ (wf_mem m -> wf_mem m') /\
-  forall x, 0 <= x -> ~ (r0 <= x < r0 + w) -> ~ (r1 <= x < r1 + w) -> getb m' x = getb m x.
+  forall x, 0 <= x -> ~ (r0 <= x < r0 + w) -> ~ (r1 <= x < r1 + w) -> ~ (lo <= x < hi) -> getb m' x = getb m x.
 
 Hypothesis Hw : 2 <= w.
+Hypothesis HwE : wsize E = w.
 Let Hw1 : 1 <= w. Proof. lia. Qed.
 
-Lemma agree_refl m : agree m m.
+Lemma agree_refl hi m : agree hi m m.
 Proof. split; [reflexivity|]. split; [tauto|]. reflexivity. Qed.
-Lemma agree_trans a b c : agree a b -> agree b c -> agree a c.
+Lemma agree_trans hi a b c : agree hi a b -> agree hi b c -> agree hi a c.
 Proof.
   intros [S1 [F1 G1]] [S2 [F2 G2]]. split; [congruence|]. split; [tauto|].
-  intros x X N0 N1. rewrite G2, G1; auto.
+  intros x X N0 N1 N2. rewrite G2, G1; auto.
 Qed.
-Lemma agree_sw m a v : 0 <= a -> a = r0 \/ a = r1 -> agree m (sw m a v).
+Lemma agree_mono hi hi' m m' : hi <= hi' -> agree hi m m' -> agree hi' m m'.
+Proof. intros L [S [F G]]. split; [exact S|]. split; [exact F|]. intros x X N0 N1 N2. apply G; auto. lia. Qed.
+Lemma agree_sw hi m a v : 0 <= a -> a = r0 \/ a = r1 \/ (lo <= a /\ a + w <= hi) -> agree hi m (sw m a v).
 Proof.
   intros Ha Hr. split; [apply msize_sw|]. split; [intros Wf; apply wf_sw; assumption|].
-  intros x X N0 N1. unfold Machine.sw. apply storen_outside; [assumption | assumption|].
-  rewrite (wn_w w Hw1). destruct Hr; subst a; lia.
+  intros x X N0 N1 N2. unfold Machine.sw. apply storen_outside; [assumption | assumption|].
+  rewrite (wn_w w Hw1). destruct Hr as [->|[->|[H1 H2]]]; lia.
 Qed.
-Lemma agree_lw m m' a : agree m m' -> 0 <= a -> dj a w -> lw m' a = lw m a.
+Lemma agree_lw hi m m' a : agree hi m m' -> 0 <= a -> dj hi a w -> lw m' a = lw m a.
 Proof.
-  intros [_ [_ G]] Ha [D0 D1]. unfold Machine.lw. apply loadn_ext. intros x Hx.
+  intros [_ [_ G]] Ha [D0 [D1 D2]]. unfold Machine.lw. apply loadn_ext. intros x Hx.
   rewrite (wn_w w Hw1) in Hx. apply G; lia.
 Qed.
-Lemma agree_lb m m' a : agree m m' -> 0 <= a -> dj a 1 -> lb m' a = lb m a.
-Proof. intros [_ [_ G]] Ha [D0 D1]. unfold lb. apply G; lia. Qed.
-Lemma agree_inb m m' a n : agree m m' -> inb m' a n = inb m a n.
+Lemma agree_lb hi m m' a : agree hi m m' -> 0 <= a -> dj hi a 1 -> lb m' a = lb m a.
+Proof. intros [_ [_ G]] Ha [D0 [D1 D2]]. unfold lb. apply G; lia. Qed.
+Lemma agree_inb hi m m' a n : agree hi m m' -> inb m' a n = inb m a n.
 Proof. intros [S _]. unfold inb. now rewrite S. Qed.
-Lemma dj_fp m : layout_ok m -> dj fp w.
+Lemma dj_fp hi m : regs_ok m -> dj hi fp w.
 Proof. intros L. destruct L. unfold dj. lia. Qed.
-Lemma FP_agree m m' : layout_ok m -> agree m m' -> FP m' = FP m.
-Proof. intros L A. unfold FP. apply agree_lw; [exact A | apply (lo_fp m L) | apply (dj_fp m L)]. Qed.
-Lemma layout_ok_agree m m' : layout_ok m -> agree m m' -> layout_ok m'.
+Lemma dj_mono hi hi' a n : hi' <= hi -> dj hi a n -> dj hi' a n.
+Proof. unfold dj. lia. Qed.
+Lemma FP_agree hi m m' : regs_ok m -> agree hi m m' -> FP m' = FP m.
+Proof. intros L A. unfold FP. apply (agree_lw hi); [exact A | apply (lo_fp m L) | apply (dj_fp hi m L)]. Qed.
+Lemma regs_ok_agree hi m m' : regs_ok m -> agree hi m m' -> regs_ok m'.
 Proof.
-  intros L A. pose proof (FP_agree m m' L A) as EF. destruct L. constructor; try assumption.
+  intros L A. pose proof (FP_agree hi m m' L A) as EF. destruct L. constructor; try assumption.
   - apply A; assumption.
-  - now rewrite (agree_inb m m').
-  - now rewrite (agree_inb m m').
-  - now rewrite (agree_inb m m').
+  - now rewrite (agree_inb hi m m').
+  - now rewrite (agree_inb hi m m').
+  - now rewrite (agree_inb hi m m').
   - rewrite EF; assumption.
 Qed.
-Lemma slot_ok_agree m m' off n : layout_ok m -> agree m m' -> slot_ok m off n -> slot_ok m' off n.
+Lemma room_ok_agree hi top m m' : regs_ok m -> agree hi m m' -> room_ok top m -> room_ok top m'.
 Proof.
-  intros L A [H1 [H2 [H3 H4]]]. unfold slot_ok. rewrite (FP_agree m m' L A), (agree_inb m m' _ _ A). tauto.
+  intros L A [H1 H2 H3 H4]. pose proof (FP_agree hi m m' L A) as EF. destruct A as [S _].
+  constructor; rewrite ?EF, ?S; assumption.
 Qed.
-Lemma opd_ok_agree m m' o : layout_ok m -> agree m m' -> opd_ok m o -> opd_ok m' o.
-Proof. intros L A. destruct o; cbn [opd_ok]; [auto | apply slot_ok_agree; assumption | auto]. Qed.
-Lemma vars_ok_agree m m' e : layout_ok m -> agree m m' -> vars_ok m e -> vars_ok m' e.
+Lemma slot_ok_agree hi hi' m m' off n : regs_ok m -> agree hi' m m' -> slot_ok hi m off n -> slot_ok hi m' off n.
 Proof.
-  intros L A. induction e as [b|j|op a b|e IH|e1 IH1 e2 IH2|e1 IH1 e2 IH2]; cbn [vars_ok]; try tauto.
-  - apply slot_ok_agree; assumption.
-  - intros [Ha Hb]. split; apply (opd_ok_agree m m'); assumption.
+  intros L A [H1 [H2 [H3 H4]]]. unfold slot_ok. rewrite (FP_agree hi' m m' L A), (agree_inb hi' m m' _ _ A). tauto.
 Qed.
-Lemma sval_agree m m' o : layout_ok m -> agree m m' -> opd_ok m o -> sval m' o = sval m o.
+Lemma slot_ok_mono hi hi' m off n : hi' <= hi -> slot_ok hi m off n -> slot_ok hi' m off n.
+Proof. intros L [H1 [H2 [H3 H4]]]. unfold slot_ok. pose proof (dj_mono hi hi' _ _ L H4). tauto. Qed.
+Lemma oexp_ok_agree hi hi' m m' o : regs_ok m -> agree hi' m m' -> oexp_ok hi m o -> oexp_ok hi m' o.
 Proof.
-  intros L A. destruct o as [z|i|op x y]; cbn [sval opd_ok]; [reflexivity| |intros []]. intros [H1 [H2 [H3 H4]]].
-  rewrite (FP_agree m m' L A). f_equal. apply agree_lw; assumption.
+  intros L A. induction o as [z|i|op x IHx y IHy|u x IHx]; cbn [oexp_ok]; try tauto.
+  apply (slot_ok_agree hi hi'); assumption.
 Qed.
-Lemma bval_agree m m' j : layout_ok m -> agree m m' -> slot_ok m (bool_off E j) 1 -> bval m' j = bval m j.
+Lemma oexp_ok_mono hi hi' m o : hi' <= hi -> oexp_ok hi m o -> oexp_ok hi' m o.
 Proof.
-  intros L A [H1 [H2 [H3 H4]]]. unfold bval. rewrite (FP_agree m m' L A). apply agree_lb; assumption.
+  intros L. induction o as [z|i|op x IHx y IHy|u x IHx]; cbn [oexp_ok]; try tauto.
+  apply slot_ok_mono; assumption.
 Qed.
-Lemma beval_agree m m' e : layout_ok m -> agree m m' -> vars_ok m e -> beval m' e = beval m e.
+Lemma sval_agree hi m m' o : regs_ok m -> agree hi m m' -> oexp_ok hi m o -> sval m' o = sval m o.
+Proof.
+  intros L A. induction o as [z|i|op x IHx y IHy|u x IHx]; cbn [sval oexp_ok].
+  - reflexivity.
+  - intros [H1 [H2 [H3 H4]]]. rewrite (FP_agree hi m m' L A). f_equal. apply (agree_lw hi); assumption.
+  - intros [_ [Hx Hy]]. now rewrite IHx, IHy.
+  - intros Hx. destruct u; now rewrite IHx.
+Qed.
+Lemma wval_agree hi m m' o : regs_ok m -> agree hi m m' -> oexp_ok hi m o -> wval m' o = wval m o.
+Proof.
+  intros L A. destruct o as [z|i|op x y|u x]; cbn [wval oexp_ok].
+  - reflexivity.
+  - intros [H1 [H2 [H3 H4]]]. rewrite (FP_agree hi m m' L A). apply (agree_lw hi); assumption.
+  - intros [_ [Hx Hy]]. now rewrite (sval_agree hi m m' x L A Hx), (sval_agree hi m m' y L A Hy).
+  - intros Hx. destruct u; now rewrite (sval_agree hi m m' x L A Hx).
+Qed.
+(* values are words, and their signed reading is the source value *)
+Lemma wval_range m o : wf_mem m -> inrange w (wval m o).
+Proof.
+  intros Wf. destruct o as [z|i|op x y|[|] x]; cbn [wval]; try (apply wrap_range; exact Hw1).
+  apply (lw_range w Hw1); exact Wf.
+Qed.
+Lemma sval_range hi m o : wf_mem m -> oexp_ok hi m o -> - (W / 2) <= sval m o < W / 2.
+Proof.
+  intros Wf. induction o as [z|i|op x IHx y IHy|u x IHx]; cbn [sval oexp_ok]; intros O.
+  - exact O.
+  - apply (sgn_range w Hw1). apply (lw_range w Hw1); exact Wf.
+  - apply (sgn_range w Hw1). apply wrap_range; exact Hw1.
+  - destruct u; [apply (sgn_range w Hw1); apply wrap_range; exact Hw1 | apply IHx; exact O].
+Qed.
+Lemma sgn_wval hi m o : wf_mem m -> oexp_ok hi m o -> sgn (wval m o) = sval m o.
+Proof.
+  intros Wf O. destruct o as [z|i|op x y|[|] x]; cbn [wval sval oexp_ok] in *; try reflexivity.
+  - apply (sgn_wrap_small w Hw1); exact O.
+  - apply (sgn_wrap_small w Hw1). apply (sval_range hi); assumption.
+Qed.
+Lemma bval_agree hi m m' j : regs_ok m -> agree hi m m' -> slot_ok hi m (bool_off E j) 1 -> bval m' j = bval m j.
+Proof.
+  intros L A [H1 [H2 [H3 H4]]]. unfold bval. rewrite (FP_agree hi m m' L A). apply (agree_lb hi); assumption.
+Qed.
+Lemma HI_agree hi m m' : regs_ok m -> agree hi m m' -> HI m' = HI m.
+Proof. intros L A. unfold HI. now rewrite (FP_agree hi m m' L A). Qed.
+Lemma layout_ok_agree hi m m' : layout_ok m -> agree hi m m' -> layout_ok m'.
+Proof. intros [L Ro] A. split; [eapply regs_ok_agree; eauto | eapply room_ok_agree; eauto]. Qed.
+Lemma vars_ok_agree m m' e : regs_ok m -> agree (HI m) m m' -> vars_ok m e -> vars_ok m' e.
+Proof.
+  intros L A. pose proof (HI_agree _ m m' L A) as EH.
+  induction e as [b|j|op a b|e IH|e1 IH1 e2 IH2|e1 IH1 e2 IH2]; cbn [vars_ok]; try tauto; rewrite EH.
+  - apply (slot_ok_agree (HI m) (HI m)); assumption.
+  - intros [Ha [Hb Hc]]. repeat split; try assumption; apply (oexp_ok_agree (HI m) (HI m) m m'); assumption.
+Qed.
+Lemma beval_agree m m' e : regs_ok m -> agree (HI m) m m' -> vars_ok m e -> beval m' e = beval m e.
 Proof.
   intros L A. induction e as [b|j|op a b|e IH|e1 IH1 e2 IH2|e1 IH1 e2 IH2]; cbn [vars_ok beval]; intros V.
   - reflexivity.
-  - now rewrite (bval_agree m m' j L A V).
-  - destruct V as [Va Vb]. now rewrite (sval_agree m m' a L A Va), (sval_agree m m' b L A Vb).
+  - now rewrite (bval_agree (HI m) m m' j L A V).
+  - destruct V as [Va [Vb _]]. now rewrite (sval_agree (HI m) m m' a L A Va), (sval_agree (HI m) m m' b L A Vb).
   - now rewrite IH.
   - destruct V as [V1 V2]. now rewrite IH1, IH2.
   - destruct V as [V1 V2]. now rewrite IH1, IH2.
 Qed.
-
-Lemma fetch_mem_agree m ra o : layout_ok m -> ra = r0 \/ ra = r1 -> agree m (fetch_mem ra o m).
-Proof.
-  intros L Hr. destruct o as [z|i|op x y]; cbn [fetch_mem]; [apply agree_refl| |apply agree_refl].
-  apply agree_sw; [destruct L, Hr; subst; assumption | exact Hr].
-Qed.
-Lemma run_mem_agree e : forall m, layout_ok m -> vars_ok m e -> agree m (run_mem e m).
-Proof.
-  induction e as [b|j|op a b|e IH|e1 IH1 e2 IH2|e1 IH1 e2 IH2]; intros m L V; cbn [run_mem vars_ok] in *.
-  - apply agree_refl.
-  - apply agree_sw; [apply (lo_r1 m L) | right; reflexivity].
-  - destruct V as [Va Vb].
-    pose proof (fetch_mem_agree m r1 b L (or_intror eq_refl)) as A1.
-    eapply agree_trans; [exact A1|]. apply fetch_mem_agree; [eapply layout_ok_agree; eauto | left; reflexivity].
-  - apply IH; assumption.
-  - destruct V as [V1 V2]. pose proof (IH1 m L V1) as A1. destruct (beval m e1); [|exact A1].
-    eapply agree_trans; [exact A1|]. apply IH2; [eapply layout_ok_agree; eauto | eapply vars_ok_agree; eauto].
-  - destruct V as [V1 V2]. pose proof (IH1 m L V1) as A1. destruct (beval m e1); [exact A1|].
-    eapply agree_trans; [exact A1|]. apply IH2; [eapply layout_ok_agree; eauto | eapply vars_ok_agree; eauto].
-Qed.
-Lemma trace_agree m m' e : layout_ok m -> agree m m' -> vars_ok m e -> trace m' e = trace m e.
+Lemma trace_agree m m' e : regs_ok m -> agree (HI m) m m' -> vars_ok m e -> trace m' e = trace m e.
 Proof.
   intros L A. induction e as [b|j|op a b|e IH|e1 IH1 e2 IH2|e1 IH1 e2 IH2]; cbn [vars_ok trace]; intros V; try reflexivity.
   - auto.
   - destruct V as [V1 V2]. now rewrite IH1, IH2, (beval_agree m m' e1 L A V1).
   - destruct V as [V1 V2]. now rewrite IH1, IH2, (beval_agree m m' e1 L A V1).
 Qed.
-(* run_mem is the effect of the trace *)
-Lemma run_mem_trace e : forall m, layout_ok m -> vars_ok m e ->
-  run_mem e m = fold_left atom_mem (trace m e) m.
-Proof.
-  induction e as [b|j|op a b|e IH|e1 IH1 e2 IH2|e1 IH1 e2 IH2]; intros m L V; cbn [run_mem vars_ok trace] in *; try reflexivity.
-  - apply IH; assumption.
-  - destruct V as [V1 V2]. rewrite fold_left_app, <- (IH1 m L V1).
-    pose proof (run_mem_agree e1 m L V1) as A1.
-    destruct (beval m e1); [|reflexivity].
-    rewrite <- (trace_agree m (run_mem e1 m) e2 L A1 V2).
-    apply IH2; [eapply layout_ok_agree; eauto | eapply vars_ok_agree; eauto].
-  - destruct V as [V1 V2]. rewrite fold_left_app, <- (IH1 m L V1).
-    pose proof (run_mem_agree e1 m L V1) as A1.
-    destruct (beval m e1); [reflexivity|].
-    rewrite <- (trace_agree m (run_mem e1 m) e2 L A1 V2).
-    apply IH2; [eapply layout_ok_agree; eauto | eapply vars_ok_agree; eauto].
-Qed.
 
 (* address arithmetic of `[fp], -off` *)
-Lemma frame_addr m off : layout_ok m -> 0 < off <= W / 2 -> sgn (FP m) + sgn (wrap (- off)) = FP m - off.
+Lemma frame_addr m off : regs_ok m -> 0 < off <= W / 2 -> sgn (FP m) + sgn (wrap (- off)) = FP m - off.
 Proof.
   intros L Ho. rewrite (sgn_small w (FP m)) by apply (lo_F m L).
   rewrite (sgn_neg_imm w Hw1 off Ho). lia.
 Qed.
+Lemma sw_wrap_eq m a u v : wrap u = wrap v -> sw m a u = sw m a v.
+Proof. unfold Machine.sw. intros ->. reflexivity. Qed.
+Lemma ra_cases rg : rg = R0 \/ rg = R1 -> ra rg = r0 \/ ra rg = r1.
+Proof. intros [->| ->]; cbn [regaddr]; auto. Qed.
 
+(* ---------- bubbles ---------- *)
+Definition bub_val (m : mem) (b : bubble) : Z :=
+  match b with
+  | BuImm z => wrap z
+  | BuLocal off | BuPushed off => lw m (FP m - off)
+  | BuReg r => lw m (ra r)
+  end.
+Definition bub_ok (hi : Z) (m : mem) (b : bubble) : Prop :=
+  match b with
+  | BuImm _ => True
+  | BuLocal off | BuPushed off => slot_ok hi m off w
+  | BuReg r => r = R0 \/ r = R1
+  end.
+Definition resident (b : bubble) : bool := match b with BuReg _ => false | _ => true end.
+Definition sym_of (r : reg) (b : bubble) : sym := snd (pop_value r b).
+Definition symval (m : mem) (s : sym) : option Z :=
+  match s with
+  | SLit z => Some (wrap z)
+  | SReg r => if inb m (ra r) w then Some (lw m (ra r)) else None
+  | SLab _ => None
+  end.
+
+Lemma pushed_slot_ok top m : regs_ok m -> room_ok top m -> w <= FP m - top - lo ->
+  slot_ok (FP m - (top + w)) m (top + w) w.
+Proof.
+  intros L [H1 H2 H3 H4] Hr. destruct L. unfold slot_ok, dj.
+  repeat split; try lia. apply inb_true; lia.
+Qed.
+Lemma bub_of_ok top rg o keep m : rg = R0 \/ rg = R1 -> regs_ok m -> room_ok top m ->
+  oexp_ok (FP m - top) m o -> Z.of_nat (pushed o keep) * w <= FP m - top - lo ->
+  bub_ok (FP m - top_after top (bub_of E top rg o keep)) m (bub_of E top rg o keep).
+Proof.
+  intros Hr L Ro O P. unfold pushed in P.
+  destruct o as [z|i|op x y|u x]; cbn [bub_of top_after bub_ok is_safe negb andb] in *; try exact I; try exact O;
+    rewrite HwE; destruct keep; cbn [top_after bub_ok andb] in *; try exact Hr;
+    apply pushed_slot_ok; try assumption; change (Z.of_nat 1) with 1 in P; lia.
+Qed.
+Lemma bub_ok_agree hi hi' m m' b : regs_ok m -> agree hi' m m' -> bub_ok hi m b -> bub_ok hi m' b.
+Proof. intros L A. destruct b; cbn [bub_ok]; auto; apply (slot_ok_agree hi hi'); assumption. Qed.
+Lemma bub_ok_mono hi hi' m b : hi' <= hi -> bub_ok hi m b -> bub_ok hi' m b.
+Proof. intros L. destruct b; cbn [bub_ok]; auto; apply slot_ok_mono; assumption. Qed.
+Lemma bub_val_agree hi m m' b : regs_ok m -> agree hi m m' -> resident b = true -> bub_ok hi m b ->
+  bub_val m' b = bub_val m b.
+Proof.
+  intros L A Rs. destruct b; cbn [resident bub_ok bub_val] in *; try discriminate; try reflexivity;
+    intros [H1 [H2 [H3 H4]]]; rewrite (FP_agree hi m m' L A); apply (agree_lw hi); assumption.
+Qed.
 (* ================================================================================= *)
 (* D  the lowered code on the machine                                                 *)
 (* ================================================================================= *)
@@ -624,21 +782,6 @@ Notation runs := (HidV.Sphinx.Halts.runs act).
 Notation oval := (Idioms.oval w cmem).
 Notation plc := (placed R lab code).
 Notation rs := (res_sym R lab).
-
-(* word value of an operand (what the conditional halt compares) *)
-Definition wval (m : mem) (o : iopd) : Z :=
-  match o with
-  | OLit z => wrap z
-  | OVar i => lw m (FP m - int_off E i)
-  | OArith op x y => wrap (arith_sem op (sval m x) (sval m y))
-  end.
-Lemma sgn_wval m o : opd_ok m o -> sgn (wval m o) = sval m o.
-Proof. destruct o as [z|i|op x y]; cbn [opd_ok wval sval]; [apply (sgn_wrap_small w Hw1) | reflexivity | intros []]. Qed.
-Lemma wval_range m o : wf_mem m -> inrange w (wval m o).
-Proof.
-  intros Wf. destruct o as [z|i|op x y]; cbn [wval];
-    [apply wrap_range; exact Hw1 | apply (lw_range w Hw1); exact Wf | apply wrap_range; exact Hw1].
-Qed.
 
 Lemma oval_lab m l : oval m (Imm (lab l)) = Some (lab l).
 Proof. rewrite oval_imm. f_equal. apply (wrap_small w). exact (lab_range l). Qed.
@@ -717,47 +860,22 @@ Proof.
     exact IH.
 Qed.
 
-(* ---------- operand fetch ---------- *)
-Lemma fetch_runs rg o c s p m : rg = R0 \/ rg = R1 -> fetch E rg o = (c, s) -> plc c p ->
-  layout_ok m -> opd_ok m o ->
-  runs (mk p m) [] (mk (p + size c) (fetch_mem (regaddr R rg) o m)) /\
-  oval (fetch_mem (regaddr R rg) o m) (rs s) = Some (wval m o).
-Proof.
-  intros Hr F P L O. destruct o as [z|i|op x y]; [| |destruct O];
-    cbn [fetch] in F; inversion F; subst c s; clear F; cbn [fetch_mem wval size].
-  - replace (p + 0) with p by lia. split; [apply runs_refl | apply oval_imm].
-  - cbn [plc res_ins res_sym regaddr] in P. destruct P as [C _].
-    cbn [opd_ok] in O. destruct O as [O1 [O2 [O3 O4]]].
-    assert (Ir : 0 <= regaddr R rg /\ inb m (regaddr R rg) w = true).
-    { destruct L, Hr; subst rg; cbn [regaddr]; split; assumption. }
-    destruct Ir as [Ir0 Ir1].
-    pose proof (act_lwso w code cmem p m (regaddr R rg) (St fp) (Imm (- int_off E i)) (FP m) (wrap (- int_off E i)) C
-                  (oval_st w cmem m fp (lo_if m L)) (oval_imm w cmem m _)) as A.
-    rewrite (frame_addr m _ L O1) in A. specialize (A O3 Ir1).
-    split.
-    + replace (p + (1 + 0)) with (p + 1) by lia. apply (runs_next act _ _ None A).
-    + cbn [res_sym]. rewrite (oval_st_sw_same w Hw cmem m _ _ Ir0 Ir1). f_equal.
-      apply (wrap_small w). apply (lw_range w Hw1). apply (lo_wf m L).
-Qed.
-(* fetching the left operand into r0 does not disturb the right operand's value *)
-Lemma oval_keep_right a b cr right m : fetch E R1 b = (cr, right) -> layout_ok m ->
-  oval (fetch_mem r0 a m) (rs right) = oval m (rs right).
-Proof.
-  intros F L. destruct a as [z|i|op x y]; cbn [fetch_mem]; [reflexivity| |reflexivity].
-  destruct b as [z'|i'|op' x' y']; cbn [fetch] in F; inversion F; subst; cbn [res_sym regaddr]; [reflexivity| |reflexivity].
-  destruct L. apply (oval_st_sw_other w Hw); [assumption | assumption | lia].
-Qed.
-Lemma wval_agree m m' o : layout_ok m -> agree m m' -> opd_ok m o -> wval m' o = wval m o.
-Proof.
-  intros L A. destruct o as [z|i|op x y]; cbn [wval opd_ok]; [reflexivity| |intros []]. intros [H1 [H2 [H3 H4]]].
-  rewrite (FP_agree m m' L A). apply agree_lw; assumption.
-Qed.
-
 (* ---------- the tables ---------- *)
 Lemma compare_instr_in op : In (op, compare_instr op) compare_map.
 Proof. destruct op; vm_compute; repeat (first [left; reflexivity | right]). Qed.
 Lemma compare_instr_inv op : In (compare_instr op, invert_instr (compare_instr op)) halt_inversion.
 Proof. destruct op; vm_compute; repeat (first [left; reflexivity | right]). Qed.
+Lemma arith_instr_in op : In (op, arith_instr op) arith_map.
+Proof. destruct op; vm_compute; repeat (first [left; reflexivity | right]). Qed.
+(* the mapped arithmetic instruction computes the wrapped source result (GenTables.arith_map) *)
+Lemma arith_ok op xv yv : op_ok op -> inrange w xv -> inrange w yv ->
+  exists r, arith w (arith_instr op) xv yv = Some r /\ wrap r = wrap (arith_sem op (sgn xv) (sgn yv)).
+Proof.
+  intros Ho Hx Hy. pose proof (arith_map_correct w Hw1) as F. rewrite Forall_forall in F.
+  specialize (F _ (arith_instr_in op) xv yv Hx Hy). cbn [fst snd] in F.
+  destruct (arith w (arith_instr op) xv yv) as [r|]; [exists r; split; [reflexivity | exact F]|].
+  destruct F as [[X|X] _]; subst op; destruct Ho.
+Qed.
 Lemma compare_instr_sem op x y : inrange w x -> inrange w y ->
   cond_holds w (compare_instr op) x y = cmp_sem op (sgn x) (sgn y).
 Proof.
@@ -765,18 +883,432 @@ Proof.
   exact (F _ (compare_instr_in op) x y Hx Hy).
 Qed.
 
+
+(* ---------- operands: pop_value ---------- *)
+Lemma symval_oval m s v : symval m s = Some v -> oval m (rs s) = Some v.
+Proof.
+  destruct s as [z|r|l]; cbn [symval res_sym]; [intros H; rewrite oval_imm; exact H | | discriminate].
+  unfold Idioms.oval, val; cbn [mm]. auto.
+Qed.
+Lemma lw_pop_other r b m a : 0 <= ra r -> 0 <= a -> (a + w <= ra r \/ ra r + w <= a) ->
+  lw (pop_mem r b m) a = lw m a.
+Proof. intros Hr Ha D. destruct b; cbn [pop_mem]; try reflexivity; apply (lw_sw_other w Hw1); assumption. Qed.
+Lemma inb_pop r b m a n : inb (pop_mem r b m) a n = inb m a n.
+Proof. destruct b; cbn [pop_mem]; try reflexivity; apply inb_sw. Qed.
+
+Lemma pop_props r b hi m : r = R0 \/ r = R1 -> regs_ok m -> bub_ok hi m b ->
+  let m' := pop_mem r b m in
+  agree lo m m' /\
+  symval m' (sym_of r b) = Some (bub_val m b) /\
+  forall c s p, pop_value r b = (c, s) -> plc c p -> runs (mk p m) [] (mk (p + size c) m').
+Proof.
+  intros Hr L B m'.
+  assert (Ir : 0 <= ra r /\ inb m (ra r) w = true).
+  { destruct L, Hr; subst r; cbn [regaddr]; split; assumption. }
+  destruct Ir as [Ir0 Ir1].
+  assert (Mem : forall off, slot_ok hi m off w -> let m1 := sw m (ra r) (lw m (FP m - off)) in
+            agree lo m m1 /\ symval m1 (SReg r) = Some (lw m (FP m - off)) /\
+            forall p, plc [AInstr (ALwso r (SReg RFp) (SLit (- off)))] p -> runs (mk p m) [] (mk (p + (1 + 0)) m1)).
+  { intros off [O1 [O2 [O3 O4]]] m1. split; [|split].
+    - apply agree_sw; [exact Ir0|]. destruct (ra_cases r Hr) as [->| ->]; auto.
+    - cbn [symval]. unfold m1. rewrite inb_sw, Ir1. rewrite (lw_sw_same w Hw1) by exact Ir0. f_equal.
+      apply (wrap_small w). apply (lw_range w Hw1). apply (lo_wf m L).
+    - intros p P. cbn [plc res_ins res_sym regaddr] in P. destruct P as [C _].
+      pose proof (act_lwso w code cmem p m (ra r) (St fp) (Imm (- off)) (FP m) (wrap (- off)) C
+                    (oval_st w cmem m fp (lo_if m L)) (oval_imm w cmem m _)) as A.
+      rewrite (frame_addr m _ L O1) in A. specialize (A O3 Ir1).
+      replace (p + (1 + 0)) with (p + 1) by lia. apply (runs_next act _ _ None A). }
+  destruct b as [z|off|r'|off]; cbn [bub_ok] in B; unfold m'; cbn [pop_mem sym_of pop_value snd bub_val].
+  - split; [apply agree_refl|]. split; [reflexivity|]. intros c s p F P. inversion F; subst. cbn [size].
+    replace (p + 0) with p by lia. apply runs_refl.
+  - destruct (Mem off B) as [A [S C]]. split; [exact A|]. split; [exact S|].
+    intros c s p F P. inversion F; subst. cbn [size]. apply C. exact P.
+  - split; [apply agree_refl|]. split.
+    + cbn [symval]. assert (I' : inb m (ra r') w = true) by (destruct L, B; subst r'; cbn [regaddr]; assumption).
+      now rewrite I'.
+    + intros c s p F P. inversion F; subst. cbn [size]. replace (p + 0) with p by lia. apply runs_refl.
+  - destruct (Mem off B) as [A [S C]]. split; [exact A|]. split; [exact S|].
+    intros c s p F P. inversion F; subst. cbn [size]. apply C. exact P.
+Qed.
+(* a symbol that is not the register written by a pop keeps its value *)
+Lemma symval_pop_other r b m s : regs_ok m -> r = R0 \/ r = R1 ->
+  match s with SReg r' => (r' = R0 \/ r' = R1) /\ r' <> r | _ => True end ->
+  symval (pop_mem r b m) s = symval m s.
+Proof.
+  intros L Hr Hs. destruct s as [z|r'|l]; cbn [symval]; try reflexivity.
+  rewrite inb_pop. destruct Hs as [Hr' Ne].
+  rewrite lw_pop_other; [reflexivity | | |].
+  - destruct L, Hr; subst r; cbn [regaddr]; assumption.
+  - destruct L, Hr'; subst r'; cbn [regaddr]; assumption.
+  - destruct L, Hr, Hr'; subst r r'; cbn [regaddr]; try congruence; lia.
+Qed.
+Lemma sym_of_bub_of rg top o keep : rg = R0 \/ rg = R1 ->
+  match sym_of rg (bub_of E top rg o keep) with SReg r' => r' = rg | SLit _ => True | SLab _ => False end.
+Proof. intros _. destruct o, keep; cbn; auto. Qed.
+
+(* ---------- operands: eval_opd ---------- *)
+(* what holds of the lowering of one operand: frame condition, the value is where the bubble
+   says, and the emitted code runs silently into exactly eval_mem *)
+Definition eval_spec (o : iopd) : Prop := forall top rg keep m,
+  rg = R0 \/ rg = R1 -> regs_ok m -> room_ok top m -> oexp_ok (FP m - top) m o ->
+  Z.of_nat (temps o keep) * w <= FP m - top - lo ->
+  let m' := eval_mem top rg o keep m in
+  agree (FP m - top) m m' /\
+  bub_val m' (bub_of E top rg o keep) = wval m o /\
+  forall c bub p, eval_opd E top rg o keep = (c, bub) -> plc c p ->
+    runs (mk p m) [] (mk (p + size c) m').
+
+Lemma eval_mem_safe top rg o keep m : is_safe o = true -> eval_mem top rg o keep m = m.
+Proof. destruct o; try discriminate; reflexivity. Qed.
+Lemma temps_pushed o keep : (pushed o keep <= temps o keep)%nat.
+Proof. unfold pushed. destruct o, keep; cbn [is_safe negb andb temps]; lia. Qed.
+
+Lemma pair_props x y : eval_spec x -> eval_spec y -> forall top m,
+  regs_ok m -> room_ok top m -> oexp_ok (FP m - top) m x -> oexp_ok (FP m - top) m y ->
+  Z.of_nat (temps_cmp x y) * w <= FP m - top - lo ->
+  let kx := negb (is_safe y) in
+  let bx := bub_of E top R0 x kx in
+  let by_ := bub_of E (top_after top bx) R1 y false in
+  let m' := pair_mem top x y m in
+  agree (FP m - top) m m' /\
+  symval m' (sym_of R0 bx) = Some (wval m x) /\
+  symval m' (sym_of R1 by_) = Some (wval m y) /\
+  forall c1 bx' c2 by' c2' rhs c3 lhs p,
+    eval_opd E top R0 x kx = (c1, bx') -> eval_opd E (top_after top bx') R1 y false = (c2, by') ->
+    pop_value R1 by' = (c2', rhs) -> pop_value R0 bx' = (c3, lhs) ->
+    plc (c1 ++ c2 ++ c2' ++ c3) p ->
+    lhs = sym_of R0 bx /\ rhs = sym_of R1 by_ /\
+    runs (mk p m) [] (mk (p + size (c1 ++ c2 ++ c2' ++ c3)) m').
+Proof.
+  intros Sx Sy top m L Ro Ox Oy T kx bx by_ m'.
+  assert (W0 : 0 <= w) by lia.
+  unfold temps_cmp in T. fold kx in T.
+  assert (Tx : Z.of_nat (temps x kx) * w <= FP m - top - lo) by (eapply room_le; [exact W0 | apply Nat.le_max_l | exact T]).
+  assert (Td : Z.of_nat (pushed x kx + temps y false) * w <= FP m - top - lo) by (eapply room_le; [exact W0 | apply Nat.le_max_r | exact T]).
+  rewrite Nat2Z.inj_add, Z.mul_add_distr_r in Td.
+  assert (Py : 0 <= Z.of_nat (temps y false) * w) by (apply Z.mul_nonneg_nonneg; lia).
+  assert (Pd : 0 <= Z.of_nat (pushed x kx) * w) by (apply Z.mul_nonneg_nonneg; lia).
+  (* left operand *)
+  destruct (Sx top R0 kx m (or_introl eq_refl) L Ro Ox Tx) as [A1 [V1 C1]].
+  set (m1 := eval_mem top R0 x kx m) in *.
+  pose proof (regs_ok_agree _ m m1 L A1) as L1. pose proof (FP_agree _ m m1 L A1) as F1.
+  pose proof (room_ok_agree _ top m m1 L A1 Ro) as Ro1.
+  set (top1 := top_after top bx) in *.
+  assert (Et : top1 = top + Z.of_nat (pushed x kx) * w) by (unfold top1, bx; rewrite top_after_bub, HwE; reflexivity).
+  assert (Ro1' : room_ok top1 m1).
+  { destruct Ro1 as [H1 H2 H3 H4]. constructor; rewrite ?F1 in *; lia. }
+  assert (Bx1 : bub_ok (FP m1 - top1) m1 bx).
+  { unfold top1, bx. apply bub_of_ok; [left; reflexivity | exact L1 | exact Ro1 | | rewrite F1; lia].
+    rewrite F1. apply (oexp_ok_agree _ (FP m - top) m m1); assumption. }
+  assert (Oy1 : oexp_ok (FP m1 - top1) m1 y).
+  { apply (oexp_ok_mono (FP m - top)); [rewrite F1; lia|]. apply (oexp_ok_agree _ (FP m - top) m m1); assumption. }
+  (* right operand *)
+  destruct (Sy top1 R1 false m1 (or_intror eq_refl) L1 Ro1' Oy1) as [A2 [V2 C2]]; [rewrite F1; lia|].
+  set (m2 := eval_mem top1 R1 y false m1) in *.
+  pose proof (regs_ok_agree _ m1 m2 L1 A2) as L2. pose proof (FP_agree _ m1 m2 L1 A2) as F2.
+  assert (V2' : bub_val m2 by_ = wval m y).
+  { unfold by_. fold top1. rewrite V2. apply (wval_agree (FP m - top)); assumption. }
+  assert (Vx2 : bub_val m2 bx = wval m x).
+  { rewrite <- V1. destruct (resident bx) eqn:Rb.
+    - apply (bub_val_agree (FP m1 - top1)); assumption.
+    - (* the left value is in r0: the right operand is safe and its evaluation emits nothing *)
+      assert (Sfy : is_safe y = true).
+      { unfold bx, kx in Rb. destruct x; cbn [bub_of resident] in Rb; try discriminate; destruct (is_safe y); first [reflexivity | discriminate]. }
+      unfold m2. now rewrite (eval_mem_safe _ _ y _ _ Sfy). }
+  assert (By2 : bub_ok (FP m2 - top1) m2 by_).
+  { pose proof (bub_of_ok top1 R1 y false m2 (or_intror eq_refl) L2 (room_ok_agree _ top1 m1 m2 L1 A2 Ro1')) as B.
+    rewrite top_after_bub in B. unfold pushed in B. cbn [andb] in B. change (Z.of_nat 0) with 0 in B.
+    replace (top1 + 0 * wsize E) with top1 in B by lia. apply B; [|rewrite F2, F1; lia].
+    rewrite F2. apply (oexp_ok_agree _ (FP m1 - top1) m1 m2); assumption. }
+  (* pop right into r1 *)
+  destruct (pop_props R1 by_ _ m2 (or_intror eq_refl) L2 By2) as [A3 [S3 C3]].
+  set (m3 := pop_mem R1 by_ m2) in *.
+  pose proof (regs_ok_agree _ m2 m3 L2 A3) as L3. pose proof (FP_agree _ m2 m3 L2 A3) as F3.
+  assert (Bx2 : bub_ok (FP m1 - top1) m2 bx) by (apply (bub_ok_agree _ (FP m1 - top1) m1 m2); assumption).
+  assert (Hlo : lo <= FP m1 - top1) by (rewrite F1; lia).
+  assert (Bx3 : bub_ok lo m3 bx).
+  { apply (bub_ok_agree _ lo m2 m3); [exact L2 | exact A3 |]. apply (bub_ok_mono (FP m1 - top1)); assumption. }
+  assert (Vx3 : bub_val m3 bx = wval m x).
+  { rewrite <- Vx2. destruct (resident bx) eqn:Rb.
+    - apply (bub_val_agree lo); [exact L2 | exact A3 | exact Rb |]. apply (bub_ok_mono (FP m1 - top1)); assumption.
+    - assert (Eb : bx = BuReg R0).
+      { unfold bx in *. destruct x; cbn [bub_of resident] in Rb |- *; try discriminate; destruct kx; first [discriminate | reflexivity]. }
+      rewrite Eb. cbn [bub_val regaddr]. unfold m3. apply lw_pop_other; cbn [regaddr]; destruct L2; try assumption; lia. }
+  (* pop left into r0 *)
+  destruct (pop_props R0 bx _ m3 (or_introl eq_refl) L3 Bx3) as [A4 [S4 C4]].
+  assert (Em : m' = pop_mem R0 bx m3) by reflexivity.
+  assert (S3' : symval m' (sym_of R1 by_) = Some (wval m y)).
+  { rewrite Em, symval_pop_other; [rewrite S3, V2'; reflexivity | exact L3 | left; reflexivity |].
+    pose proof (sym_of_bub_of R1 top1 y false (or_intror eq_refl)) as Q. fold by_ in Q.
+    destruct (sym_of R1 by_); [exact I | subst; split; [right; reflexivity | discriminate] | destruct Q]. }
+  assert (Ag : agree (FP m - top) m m').
+  { eapply agree_trans; [exact A1|]. eapply agree_trans; [apply (agree_mono (FP m1 - top1)); [rewrite F1; lia | exact A2]|].
+    eapply agree_trans; [apply (agree_mono lo); [lia | exact A3]|]. rewrite Em. apply (agree_mono lo); [lia | exact A4]. }
+  split; [exact Ag|]. split; [rewrite Em, S4, Vx3; reflexivity|]. split; [exact S3'|].
+  intros c1 bx' c2 by' c2' rhs c3 lhs p E1 E2 E3 E4 P.
+  assert (Ebx : bx' = bx) by (pose proof (eval_opd_bub E x top R0 kx) as Q; rewrite E1 in Q; exact Q).
+  subst bx'. fold top1 in E2.
+  assert (Eby : by' = by_) by (pose proof (eval_opd_bub E y top1 R1 false) as Q; rewrite E2 in Q; exact Q).
+  subst by'.
+  split; [unfold sym_of; now rewrite E4|]. split; [unfold sym_of; now rewrite E3|].
+  apply placed_app in P. destruct P as [P1 P]. apply placed_app in P. destruct P as [P2 P].
+  apply placed_app in P. destruct P as [P3 P4].
+  rewrite !size_app.
+  change (@nil event) with (@nil event ++ ([] ++ ([] ++ []))).
+  eapply runs_trans; [apply (C1 c1 bx p E1 P1)|].
+  eapply runs_trans; [apply (C2 c2 by_ _ E2 P2)|].
+  eapply runs_trans; [apply (C3 c2' rhs _ E3 P3)|].
+  rewrite Em. replace (p + (size c1 + (size c2 + (size c2' + size c3)))) with (p + size c1 + size c2 + size c2' + size c3) by lia.
+  apply (C4 c3 lhs _ E4 P4).
+Qed.
+
+(* push_value of a computed result *)
+Definition push_code (top : Z) (rg : reg) (keep : bool) : list aline :=
+  if keep then [AInstr (ASwso (SReg RFp) (SLit (- (top + w))) (SReg rg))] else [].
+Definition fin_bub (top : Z) (rg : reg) (keep : bool) : bubble := if keep then BuPushed (top + w) else BuReg rg.
+Lemma finish_opd_eq top rg keep cd : finish_opd E top rg keep cd = (cd ++ push_code top rg keep, fin_bub top rg keep).
+Proof. unfold finish_opd, push_code, fin_bub. rewrite HwE. destruct keep; [reflexivity | now rewrite app_nil_r]. Qed.
+Lemma push_props top rg keep m0 m5 : rg = R0 \/ rg = R1 -> regs_ok m0 -> room_ok top m0 ->
+  agree (FP m0 - top) m0 m5 -> (keep = true -> w <= FP m0 - top - lo) ->
+  let m' := push_mem keep top rg m5 in
+  agree (FP m0 - top) m0 m' /\
+  bub_val m' (fin_bub top rg keep) = lw m5 (ra rg) /\
+  forall p, plc (push_code top rg keep) p -> runs (mk p m5) [] (mk (p + size (push_code top rg keep)) m').
+Proof.
+  intros Hr L0 Ro0 A5 Hk m'.
+  pose proof (regs_ok_agree _ m0 m5 L0 A5) as L5. pose proof (FP_agree _ m0 m5 L0 A5) as F5.
+  pose proof (room_ok_agree _ top m0 m5 L0 A5 Ro0) as Ro5.
+  destruct keep; unfold m', push_mem, push_code, fin_bub; cbn [bub_val size].
+  - specialize (Hk eq_refl).
+    destruct (pushed_slot_ok top m5 L5 Ro5) as [O1 [O2 [O3 O4]]]; [rewrite F5; lia|].
+    set (a := FP m5 - (top + w)) in *. set (z := lw m5 (ra rg)).
+    assert (As : agree (FP m0 - top) m5 (sw m5 a z)).
+    { apply agree_sw; [exact O2|]. right. right. unfold a. destruct Ro5. rewrite F5 in *. lia. }
+    split; [eapply agree_trans; eauto|]. split.
+    + rewrite (FP_agree _ m5 _ L5 As). fold a. rewrite (lw_sw_same w Hw1) by exact O2.
+      apply (wrap_small w). apply (lw_range w Hw1). apply (lo_wf m5 L5).
+    + intros p P. cbn [plc res_ins res_sym regaddr] in P. destruct P as [C _].
+      assert (Ir : inb m5 (ra rg) w = true) by (destruct L5, Hr; subst rg; cbn [regaddr]; assumption).
+      pose proof (act_swso w code cmem p m5 (St fp) (Imm (- (top + w))) (St (ra rg)) (FP m5) (wrap (- (top + w))) z C
+                    (oval_st w cmem m5 fp (lo_if m5 L5)) (oval_imm w cmem m5 _) (oval_st w cmem m5 _ Ir)) as A.
+      rewrite (frame_addr m5 _ L5 O1) in A. fold a in A. specialize (A O3).
+      replace (p + (1 + 0)) with (p + 1) by lia. apply (runs_next act _ _ None A).
+  - split; [exact A5|]. split; [reflexivity|]. intros p _. replace (p + 0) with p by lia. apply runs_refl.
+Qed.
+Lemma reg_eqb_refl r : reg_eqb r r = true.
+Proof. destruct r; reflexivity. Qed.
+
+Ltac szn := repeat progress (rewrite ?size_app; cbn [size goto]).
+Ltac szn_in H := repeat progress (rewrite ?size_app in H; cbn [size goto] in H).
+(* close a goal `runs (mk a m) [] (mk b m')` with G : runs (mk a' m) [] (mk b' m'), a = a', b = b' by lia *)
+Ltac close_with G :=
+  szn; szn_in G;
+  match goal with |- HidV.Sphinx.Halts.runs _ (mk ?a _) _ _ =>
+    match type of G with HidV.Sphinx.Halts.runs _ (mk ?b _) _ _ => replace a with b by lia end end;
+  match goal with |- HidV.Sphinx.Halts.runs _ _ _ (mk ?a _) =>
+    match type of G with HidV.Sphinx.Halts.runs _ _ _ (mk ?b _) => replace a with b by lia end end;
+  exact G.
+
+Theorem eval_opd_props o : eval_spec o.
+Proof.
+  induction o as [z|i|op x IHx y IHy|u x IHx]; intros top rg keep m Hr L Ro O T m'.
+  - (* literal *)
+    split; [apply agree_refl|]. split; [reflexivity|]. intros c bub p Ev _. cbn [eval_opd] in Ev. inversion Ev; subst.
+    cbn [size]. replace (p + 0) with p by lia. apply runs_refl.
+  - (* local *)
+    split; [apply agree_refl|]. split; [reflexivity|]. intros c bub p Ev _. cbn [eval_opd] in Ev. inversion Ev; subst.
+    cbn [size]. replace (p + 0) with p by lia. apply runs_refl.
+  - (* binary arithmetic *)
+    cbn [oexp_ok] in O. destruct O as [Oop [Ox Oy]]. cbn [temps] in T.
+    assert (W0 : 0 <= w) by lia.
+    assert (Tp : Z.of_nat (temps_cmp x y) * w <= FP m - top - lo) by (eapply room_le; [exact W0 | apply Nat.le_max_l | exact T]).
+    assert (Hk : keep = true -> w <= FP m - top - lo).
+    { intros ->. assert (Z.of_nat 1 * w <= FP m - top - lo) by (eapply room_le; [exact W0 | apply Nat.le_max_r | exact T]). lia. }
+    destruct (pair_props x y IHx IHy top m L Ro Ox Oy Tp) as [A4 [Sl [Sr C]]].
+    set (kx := negb (is_safe y)) in *. set (bx := bub_of E top R0 x kx) in *.
+    set (by_ := bub_of E (top_after top bx) R1 y false) in *. set (m4 := pair_mem top x y m) in *.
+    pose proof (regs_ok_agree _ m m4 L A4) as L4.
+    set (o := OArith op x y). set (m5 := sw m4 (ra rg) (wval m o)).
+    change m' with (push_mem keep top rg m5).
+    assert (Ir : 0 <= ra rg /\ inb m4 (ra rg) w = true) by (destruct L4, Hr; subst rg; cbn [regaddr]; split; assumption).
+    destruct Ir as [Ir0 Ir1].
+    assert (A5 : agree (FP m - top) m m5).
+    { eapply agree_trans; [exact A4|]. apply agree_sw; [exact Ir0|]. destruct (ra_cases rg Hr) as [->| ->]; auto. }
+    assert (V5 : lw m5 (ra rg) = wval m o).
+    { unfold m5. rewrite (lw_sw_same w Hw1) by exact Ir0. unfold o. cbn [wval]. apply (wrap_wrap w Hw1). }
+    destruct (push_props top rg keep m m5 Hr L Ro A5 Hk) as [A6 [V6 C6]].
+    split; [exact A6|]. split.
+    { unfold o in *. cbn [bub_of]. rewrite HwE. fold (fin_bub top rg keep). rewrite V6. exact V5. }
+    intros c bub p Ev P. unfold o in Ev. cbn [eval_opd] in Ev. fold kx in Ev.
+    destruct (eval_opd E top R0 x kx) as [c1 bx'] eqn:E1.
+    destruct (eval_opd E (top_after top bx') R1 y false) as [c2 by'] eqn:E2.
+    destruct (pop_value R1 by') as [c2' rhs] eqn:E3. destruct (pop_value R0 bx') as [c3 lhs] eqn:E4.
+    rewrite finish_opd_eq in Ev. inversion Ev; subst c bub; clear Ev.
+    assert (Eq : c1 ++ c2 ++ c2' ++ c3 ++ [AInstr (AArith (arith_instr op) rg lhs rhs)]
+                 = (c1 ++ c2 ++ c2' ++ c3) ++ [AInstr (AArith (arith_instr op) rg lhs rhs)])
+      by (rewrite <- !app_assoc; reflexivity).
+    rewrite Eq in *. clear Eq.
+    apply placed_app in P. destruct P as [P P6]. apply placed_app in P. destruct P as [P4 Pi].
+    destruct (C c1 bx' c2 by' c2' rhs c3 lhs p eq_refl E2 E3 E4 P4) as [El [Er R4]].
+    cbn [plc res_ins] in Pi. destruct Pi as [Ci _].
+    destruct (arith_ok op (wval m x) (wval m y) Oop (wval_range m x (lo_wf m L)) (wval_range m y (lo_wf m L))) as [r [Ar Wr]].
+    rewrite (sgn_wval _ m x (lo_wf m L) Ox), (sgn_wval _ m y (lo_wf m L) Oy) in Wr.
+    subst lhs rhs.
+    pose proof (act_arith w code cmem _ m4 (arith_instr op) (ra rg) _ _ _ _ r Ci
+                  (symval_oval _ _ _ Sl) (symval_oval _ _ _ Sr) Ar Ir1) as Aa.
+    assert (Es : sw m4 (ra rg) r = m5).
+    { unfold m5. apply sw_wrap_eq. unfold o. cbn [wval]. rewrite (wrap_wrap w Hw1). exact Wr. }
+    rewrite Es in Aa.
+    change (@nil event) with (@nil event ++ ([] ++ [])).
+    eapply runs_trans; [exact R4|]. eapply runs_trans; [apply (runs_next act _ _ None Aa)|].
+    cbn [evl]. pose proof (C6 _ P6) as G. close_with G.
+  - (* unary *)
+    cbn [oexp_ok] in O. cbn [temps] in T.
+    assert (W0 : 0 <= w) by lia.
+    assert (Tx : Z.of_nat (temps x false) * w <= FP m - top - lo) by (eapply room_le; [exact W0 | apply Nat.le_max_l | exact T]).
+    assert (Hk : keep = true -> w <= FP m - top - lo).
+    { intros ->. assert (Z.of_nat 1 * w <= FP m - top - lo) by (eapply room_le; [exact W0 | apply Nat.le_max_r | exact T]). lia. }
+    destruct (IHx top rg false m Hr L Ro O Tx) as [A1 [V1 C1]].
+    set (m1 := eval_mem top rg x false m) in *. set (b := bub_of E top rg x false) in *.
+    pose proof (regs_ok_agree _ m m1 L A1) as L1. pose proof (FP_agree _ m m1 L A1) as F1.
+    pose proof (room_ok_agree _ top m m1 L A1 Ro) as Ro1.
+    assert (Bok : bub_ok (FP m1 - top) m1 b).
+    { pose proof (bub_of_ok top rg x false m1 Hr L1 Ro1) as B. rewrite top_after_bub in B. fold b in B.
+      unfold pushed in B. cbn [andb] in B. change (Z.of_nat 0) with 0 in B. replace (top + 0 * wsize E) with top in B by lia.
+      apply B; [|destruct Ro1; lia]. rewrite F1. apply (oexp_ok_agree _ (FP m - top) m m1); assumption. }
+    destruct (pop_props rg b _ m1 Hr L1 Bok) as [A2 [S2 C2]].
+    set (m2 := pop_mem rg b m1) in *. rewrite V1 in S2.
+    pose proof (regs_ok_agree _ m1 m2 L1 A2) as L2.
+    assert (A12 : agree (FP m - top) m m2).
+    { eapply agree_trans; [exact A1|]. apply (agree_mono lo); [destruct Ro; lia | exact A2]. }
+    assert (Ir : 0 <= ra rg /\ inb m2 (ra rg) w = true) by (destruct L2, Hr; subst rg; cbn [regaddr]; split; assumption).
+    destruct Ir as [Ir0 Ir1].
+    set (o := OUn u x).
+    set (m3 := match u, x with UPos, OLit z => sw m2 (ra rg) (wrap z) | UPos, _ => m2 | UNeg, _ => sw m2 (ra rg) (wval m (OUn UNeg x)) end).
+    change m' with (push_mem keep top rg m3).
+    set (ucode := match u with UNeg => [AInstr (AArith Asub rg (SLit 0) (sym_of rg b))]
+                           | UPos => if is_state_of rg (sym_of rg b) then [] else [AInstr (AMov rg (sym_of rg b))] end).
+    assert (U : agree (FP m - top) m m3 /\ lw m3 (ra rg) = wval m o /\
+                forall q, plc ucode q -> runs (mk q m2) [] (mk (q + size ucode) m3)).
+    { assert (Asw : forall v, agree (FP m - top) m (sw m2 (ra rg) v)).
+      { intros v. eapply agree_trans; [exact A12|]. apply agree_sw; [exact Ir0|]. destruct (ra_cases rg Hr) as [->| ->]; auto. }
+      assert (Rx : inrange w (wval m x)) by (apply wval_range; apply (lo_wf m L)).
+      destruct u.
+      - (* neg *)
+        assert (Em3 : m3 = sw m2 (ra rg) (wval m (OUn UNeg x))) by (unfold m3; destruct x; reflexivity).
+        rewrite Em3. split; [apply Asw|]. split.
+        + rewrite (lw_sw_same w Hw1) by exact Ir0. unfold o. cbn [wval]. apply (wrap_wrap w Hw1).
+        + intros q Pq. unfold ucode in *. cbn [plc res_ins res_sym] in Pq. destruct Pq as [Cq _].
+          assert (W0' : wrap 0 = 0) by (apply (wrap_small w); pose proof (W_pos w Hw1); unfold inrange; lia).
+          pose proof (act_arith w code cmem q m2 Asub (ra rg) (Imm 0) _ (wrap 0) (wval m x) (wrap 0 - wval m x) Cq
+                        (oval_imm w cmem m2 0) (symval_oval _ _ _ S2) eq_refl Ir1) as Aa.
+          assert (Es : sw m2 (ra rg) (wrap 0 - wval m x) = sw m2 (ra rg) (wval m (OUn UNeg x))).
+          { apply sw_wrap_eq. cbn [wval]. rewrite (wrap_wrap w Hw1), W0'.
+            rewrite (wrap_sub_sgn w Hw1 0 (wval m x)); [|pose proof (W_pos w Hw1); unfold inrange; lia | exact Rx].
+            rewrite (sgn_small w 0) by (pose proof (half_pos w Hw1); lia).
+            rewrite (sgn_wval _ m x (lo_wf m L) O). f_equal; lia. }
+          rewrite Es in Aa. cbn [size]. replace (q + (1 + 0)) with (q + 1) by lia. apply (runs_next act _ _ None Aa).
+      - (* pos *)
+        assert (Vp : wval m o = wval m x).
+        { unfold o. cbn [wval]. rewrite <- (sgn_wval _ m x (lo_wf m L) O). apply (wrap_sgn w Hw1). exact Rx. }
+        destruct x as [z|i|op' x1 x2|u' x1].
+        + (* a literal: `mov [rg], z` *)
+          unfold m3, ucode, b. cbn [bub_of sym_of pop_value snd is_state_of].
+          split; [apply Asw|]. split.
+          * rewrite (lw_sw_same w Hw1) by exact Ir0. rewrite Vp. cbn [wval]. apply (wrap_wrap w Hw1).
+          * intros q Pq. cbn [plc res_ins res_sym] in Pq. destruct Pq as [Cq _].
+            pose proof (act_mov w code cmem q m2 (ra rg) (Imm z) (wrap z) Cq (oval_imm w cmem m2 z) Ir1) as Am.
+            cbn [size]. replace (q + (1 + 0)) with (q + 1) by lia. apply (runs_next act _ _ None Am).
+        + unfold m3, ucode, b in *. cbn [bub_of sym_of pop_value snd is_state_of] in *. rewrite reg_eqb_refl.
+          split; [exact A12|]. split.
+          * rewrite Vp. cbn [symval] in S2. rewrite Ir1 in S2. injection S2 as S2'. exact S2'.
+          * intros q _. cbn [size]. replace (q + 0) with q by lia. apply runs_refl.
+        + unfold m3, ucode, b in *. cbn [bub_of sym_of pop_value snd is_state_of] in *. rewrite reg_eqb_refl.
+          split; [exact A12|]. split.
+          * rewrite Vp. cbn [symval] in S2. rewrite Ir1 in S2. injection S2 as S2'. exact S2'.
+          * intros q _. cbn [size]. replace (q + 0) with q by lia. apply runs_refl.
+        + unfold m3, ucode, b in *. cbn [bub_of sym_of pop_value snd is_state_of] in *. rewrite reg_eqb_refl.
+          split; [exact A12|]. split.
+          * rewrite Vp. cbn [symval] in S2. rewrite Ir1 in S2. injection S2 as S2'. exact S2'.
+          * intros q _. cbn [size]. replace (q + 0) with q by lia. apply runs_refl. }
+    destruct U as [A3 [V3 C3]].
+    destruct (push_props top rg keep m m3 Hr L Ro A3 Hk) as [A6 [V6 C6]].
+    split; [exact A6|]. split.
+    { unfold o in *. cbn [bub_of]. rewrite HwE. fold (fin_bub top rg keep). rewrite V6. exact V3. }
+    intros c bub p Ev P. unfold o in Ev. cbn [eval_opd] in Ev.
+    destruct (eval_opd E top rg x false) as [c1 b'] eqn:E1.
+    assert (Eb : b' = b) by (pose proof (eval_opd_bub E x top rg false) as Q; rewrite E1 in Q; exact Q).
+    subst b'. destruct (pop_value rg b) as [c2 v] eqn:E2.
+    assert (Ev' : v = sym_of rg b) by (unfold sym_of; now rewrite E2).
+    subst v. fold ucode in Ev. rewrite finish_opd_eq in Ev. inversion Ev; subst c bub; clear Ev.
+    assert (Eq : c1 ++ c2 ++ ucode = (c1 ++ c2) ++ ucode) by (rewrite <- app_assoc; reflexivity).
+    rewrite Eq in *. clear Eq.
+    apply placed_app in P. destruct P as [P P6]. apply placed_app in P. destruct P as [P12 Pu].
+    apply placed_app in P12. destruct P12 as [P1 P2].
+    change (@nil event) with (@nil event ++ ([] ++ ([] ++ []))).
+    eapply runs_trans; [apply (C1 c1 b p eq_refl P1)|].
+    eapply runs_trans; [apply (C2 c2 _ _ eq_refl P2)|].
+    rewrite size_app in Pu. replace (p + (size c1 + size c2)) with (p + size c1 + size c2) in Pu by lia.
+    eapply runs_trans; [apply (C3 _ Pu)|].
+    pose proof (C6 _ P6) as G. close_with G.
+Qed.
+
+(* ---------- comparison operands ---------- *)
+Lemma cmp_props a b m : regs_ok m -> room_ok (stack_top E) m ->
+  oexp_ok (HI m) m a -> oexp_ok (HI m) m b -> Z.of_nat (temps_cmp a b) * w <= HI m - lo ->
+  let m' := pair_mem (stack_top E) a b m in
+  agree (HI m) m m' /\
+  forall co lhs rhs p, compare_operands E a b = (co, lhs, rhs) -> plc co p ->
+    runs (mk p m) [] (mk (p + size co) m') /\
+    oval m' (rs lhs) = Some (wval m a) /\ oval m' (rs rhs) = Some (wval m b).
+Proof.
+  intros L Ro Oa Ob T m'. unfold HI in *.
+  destruct (pair_props a b (eval_opd_props a) (eval_opd_props b) (stack_top E) m L Ro Oa Ob T) as [Ag [Sl [Sr C]]].
+  split; [exact Ag|]. intros co lhs rhs p Ec P. unfold compare_operands in Ec.
+  destruct (eval_opd E (stack_top E) R0 a (negb (is_safe b))) as [c1 bx'] eqn:E1.
+  destruct (eval_opd E (top_after (stack_top E) bx') R1 b false) as [c2 by'] eqn:E2.
+  destruct (pop_value R1 by') as [c2' rhs'] eqn:E3. destruct (pop_value R0 bx') as [c3 lhs'] eqn:E4.
+  inversion Ec; subst co lhs rhs; clear Ec.
+  destruct (C c1 bx' c2 by' c2' rhs' c3 lhs' p eq_refl E2 E3 E4 P) as [El [Er Rn]].
+  subst lhs' rhs'. split; [exact Rn|]. split; apply symval_oval; assumption.
+Qed.
+
+(* ---------- frame condition and trace of the whole expression ---------- *)
+Lemma run_mem_agree e : forall m, layout_ok m -> vars_ok m e -> agree (HI m) m (run_mem e m).
+Proof.
+  induction e as [b|j|op a b|e IH|e1 IH1 e2 IH2|e1 IH1 e2 IH2]; intros m L V; cbn [run_mem vars_ok] in *.
+  - apply agree_refl.
+  - apply agree_sw; [apply (lo_r1 m (proj1 L)) | right; left; reflexivity].
+  - destruct L as [L Ro]. destruct V as [Va [Vb Vt]]. apply (cmp_props a b m L Ro Va Vb Vt).
+  - apply IH; assumption.
+  - destruct V as [V1 V2]. pose proof (IH1 m L V1) as A1. destruct (beval m e1); [|exact A1].
+    eapply agree_trans; [exact A1|]. rewrite <- (HI_agree _ m _ (proj1 L) A1).
+    apply IH2; [eapply layout_ok_agree; eauto | eapply vars_ok_agree; [exact (proj1 L) | exact A1 | exact V2]].
+  - destruct V as [V1 V2]. pose proof (IH1 m L V1) as A1. destruct (beval m e1); [exact A1|].
+    eapply agree_trans; [exact A1|]. rewrite <- (HI_agree _ m _ (proj1 L) A1).
+    apply IH2; [eapply layout_ok_agree; eauto | eapply vars_ok_agree; [exact (proj1 L) | exact A1 | exact V2]].
+Qed.
+Lemma run_mem_trace e : forall m, layout_ok m -> vars_ok m e ->
+  run_mem e m = fold_left atom_mem (trace m e) m.
+Proof.
+  induction e as [b|j|op a b|e IH|e1 IH1 e2 IH2|e1 IH1 e2 IH2]; intros m L V; cbn [run_mem vars_ok trace] in *; try reflexivity.
+  - apply IH; assumption.
+  - destruct V as [V1 V2]. rewrite fold_left_app, <- (IH1 m L V1).
+    pose proof (run_mem_agree e1 m L V1) as A1.
+    destruct (beval m e1); [|reflexivity].
+    rewrite <- (trace_agree m (run_mem e1 m) e2 (proj1 L) A1 V2).
+    apply IH2; [eapply layout_ok_agree; eauto | eapply vars_ok_agree; [exact (proj1 L) | exact A1 | exact V2]].
+  - destruct V as [V1 V2]. rewrite fold_left_app, <- (IH1 m L V1).
+    pose proof (run_mem_agree e1 m L V1) as A1.
+    destruct (beval m e1); [reflexivity|].
+    rewrite <- (trace_agree m (run_mem e1 m) e2 (proj1 L) A1 V2).
+    apply IH2; [eapply layout_ok_agree; eauto | eapply vars_ok_agree; [exact (proj1 L) | exact A1 | exact V2]].
+Qed.
+
 (* ---------- the induction over the expression tree ---------- *)
 Lemma ends_goto_kl pre g : forallb simple pre = true ->
   ends_goto (kl pre g) = match g with Some _ => true | None => false end.
 Proof. intros S. destruct g; [apply ends_goto_kl_some | apply ends_goto_kl_none, S]. Qed.
-
-Ltac szn := repeat progress (rewrite ?size_app; cbn [size goto]).
-Ltac szn_in H := repeat progress (rewrite ?size_app in H; cbn [size goto] in H).
-Ltac close_with G :=
-  szn; szn_in G;
-  match goal with |- HidV.Sphinx.Halts.runs _ _ _ (mk ?a _) =>
-    match type of G with HidV.Sphinx.Halts.runs _ _ _ (mk ?b _) => replace a with b by lia end end;
-  exact G.
 
 Theorem lower_runs e : forall pt gt pf gf st C st' p m,
   lower_branch E e (kl pt gt) (kl pf gf) st = (C, st') ->
@@ -800,6 +1332,7 @@ Proof.
     cbn [app plc] in P. destruct P as [Lit [Cc' P]].
     apply placed_app in P. destruct P as [Pkt Pend].
     cbn [res_ins res_sym regaddr] in Cl, Cj, Cc, Cc'.
+    destruct Lo as [Lo Ro].
     cbn [vars_ok] in V. destruct V as [V1 [V2 [V3 V4]]].
     cbn [run_mem beval] in Rs |- *. unfold bval in *.
     set (v := lb m (FP m - bool_off E j)) in *.
@@ -837,13 +1370,11 @@ Proof.
   - (* BCmp *)
     cbn [lower_branch] in L.
     destruct (add_label LCompareIsTrue st) as [it st1]. destruct (add_label LCompareEnd st1) as [be st2].
-    cbn [vars_ok] in V. destruct V as [Va Vb].
-    rewrite (compare_operands_safe E a b (opd_ok_safe m a Va) (opd_ok_safe m b Vb)) in L.
-    destruct (fetch E R1 b) as [cr right] eqn:Fb. destruct (fetch E R0 a) as [cl left] eqn:Fa.
-    cbn [fst snd] in L. rewrite <- app_assoc in L.
+    destruct Lo as [Lo Ro]. cbn [vars_ok] in V. destruct V as [Va [Vb Vt]].
+    destruct (cmp_props a b m Lo Ro Va Vb Vt) as [Ag Cc0].
+    destruct (compare_operands E a b) as [[co lhs] rhs] eqn:Eco.
     inversion L; subst C st'; clear L.
-    apply placed_app in P. destruct P as [Pcr P].
-    apply placed_app in P. destruct P as [Pcl P].
+    apply placed_app in P. destruct P as [Pco P].
     cbn [app plc] in P. destruct P as [Cj [Cc P]].
     apply placed_app in P. destruct P as [Pkf P].
     apply placed_app in P. destruct P as [Pgo P].
@@ -851,29 +1382,18 @@ Proof.
     apply placed_app in P. destruct P as [Pkt Pend].
     cbn [res_ins res_sym regaddr] in Cj, Cc, Cc'.
     cbn [run_mem beval] in Rs |- *.
-    (* the two fetches *)
-    destruct (fetch_runs R1 b cr right p m (or_intror eq_refl) Fb Pcr Lo Vb) as [Rb Ob].
-    cbn [regaddr] in Rb, Ob.
-    set (m1 := fetch_mem r1 b m) in *.
-    assert (A1 : agree m m1) by (apply fetch_mem_agree; [exact Lo | right; reflexivity]).
-    assert (Lo1 : layout_ok m1) by exact (layout_ok_agree m m1 Lo A1).
-    assert (Va1 : opd_ok m1 a) by exact (opd_ok_agree m m1 a Lo A1 Va).
-    destruct (fetch_runs R0 a cl left _ m1 (or_introl eq_refl) Fa Pcl Lo1 Va1) as [Ra Oa].
-    cbn [regaddr] in Ra, Oa.
-    set (m2 := fetch_mem r0 a m1) in *.
-    rewrite (wval_agree m m1 a Lo A1 Va) in Oa.
-    assert (Ob2 : oval m2 (rs right) = Some (wval m b)).
-    { unfold m2. rewrite (oval_keep_right a b cr right m1 Fb Lo1). exact Ob. }
+    destruct (Cc0 co lhs rhs p eq_refl Pco) as [Rco [Oa Ob2]].
+    set (m2 := pair_mem (stack_top E) a b m) in *.
     change (@nil event) with (@nil event ++ ([] ++ [])).
-    eapply runs_trans; [exact Rb|]. eapply runs_trans; [exact Ra|]. clear Rb Ra.
+    eapply runs_trans; [exact Rco|]. clear Rco.
     (* the branch *)
     rewrite <- Lit in Cc'.
     pose proof (branch_idiom_table w code cmem _ m2 (Imm (lab it)) (lab it) (compare_instr op)
-                  (invert_instr (compare_instr op)) (rs left) (rs right) (wval m a) (wval m b)
+                  (invert_instr (compare_instr op)) (rs lhs) (rs rhs) (wval m a) (wval m b)
                   (compare_instr_inv op) Cj Cc (oval_lab m2 it) Cc' Oa Ob2) as Br.
     rewrite (compare_instr_sem op _ _ (wval_range m a (lo_wf m Lo)) (wval_range m b (lo_wf m Lo))) in Br.
-    rewrite (sgn_wval m a Va), (sgn_wval m b Vb) in Br.
-    change (@nil event) with (@nil event ++ []). eapply runs_trans; [exact Br|]. clear Br.
+    rewrite (sgn_wval _ m a (lo_wf m Lo) Va), (sgn_wval _ m b (lo_wf m Lo) Vb) in Br.
+    eapply runs_trans; [exact Br|]. clear Br.
     rewrite (ends_goto_kl pf gf Spf) in *.
     szn.
     destruct (cmp_sem op (sval m a) (sval m b)) eqn:Ev.
@@ -883,8 +1403,8 @@ Proof.
       destruct gt as [Lt|]; cbn [kexit] in K |- *; [exact K|].
       destruct gf as [Lf|]; close_with K.
     + (* false *)
-      pose proof (kont_runs pf gf (p + size cr + size cl + 1 + 1) m2 m'' Spf Pkf Rs) as K.
-      replace (p + size cr + size cl + 2) with (p + size cr + size cl + 1 + 1) by lia.
+      pose proof (kont_runs pf gf (p + size co + 1 + 1) m2 m'' Spf Pkf Rs) as K.
+      replace (p + size co + 2) with (p + size co + 1 + 1) by lia.
       destruct gf as [Lf|]; cbn [kexit] in K |- *; [exact K|].
       change (@nil event) with (@nil event ++ []). eapply runs_trans; [exact K|].
       cbn [goto plc res_ins res_sym] in Pgo. destruct Pgo as [Gj [Gh _]].
@@ -902,9 +1422,9 @@ Proof.
     rewrite (ends_goto_kl pf gf Spf) in L.
     cbn [vars_ok] in V. destruct V as [V1 V2].
     pose proof (run_mem_agree e1 m Lo V1) as A1.
-    assert (Lo1 : layout_ok (run_mem e1 m)) by exact (layout_ok_agree m _ Lo A1).
-    assert (V21 : vars_ok (run_mem e1 m) e2) by exact (vars_ok_agree m _ e2 Lo A1 V2).
-    pose proof (beval_agree m (run_mem e1 m) e2 Lo A1 V2) as B2.
+    assert (Lo1 : layout_ok (run_mem e1 m)) by exact (layout_ok_agree _ m _ Lo A1).
+    assert (V21 : vars_ok (run_mem e1 m) e2) by exact (vars_ok_agree m _ e2 (proj1 Lo) A1 V2).
+    pose proof (beval_agree m (run_mem e1 m) e2 (proj1 Lo) A1 V2) as B2.
     cbn [beval run_mem] in Rs |- *.
     destruct gf as [Lf|].
     + destruct (lower_branch E e1 (goto lt) (kl pf (Some Lf)) st2) as [c1 st3] eqn:L1.
@@ -943,9 +1463,9 @@ Proof.
     rewrite (ends_goto_kl pt gt Spt) in L.
     cbn [vars_ok] in V. destruct V as [V1 V2].
     pose proof (run_mem_agree e1 m Lo V1) as A1.
-    assert (Lo1 : layout_ok (run_mem e1 m)) by exact (layout_ok_agree m _ Lo A1).
-    assert (V21 : vars_ok (run_mem e1 m) e2) by exact (vars_ok_agree m _ e2 Lo A1 V2).
-    pose proof (beval_agree m (run_mem e1 m) e2 Lo A1 V2) as B2.
+    assert (Lo1 : layout_ok (run_mem e1 m)) by exact (layout_ok_agree _ m _ Lo A1).
+    assert (V21 : vars_ok (run_mem e1 m) e2) by exact (vars_ok_agree m _ e2 (proj1 Lo) A1 V2).
+    pose proof (beval_agree m (run_mem e1 m) e2 (proj1 Lo) A1 V2) as B2.
     cbn [beval run_mem] in Rs |- *.
     destruct gt as [Lt|].
     + destruct (lower_branch E e1 (kl pt (Some Lt)) (goto lf) st2) as [c1 st3] eqn:L1.
@@ -979,13 +1499,360 @@ Proof.
       * specialize (IH1 _ eq_refl). cbn [kexit] in IH1. rewrite Llf in IH1.
         change (@nil event) with (@nil event ++ []). eapply runs_trans; [exact IH1|]. apply IH2. exact Rs.
 Qed.
+
+(* ---------- boolean VALUES (get_expr_value of a boolean expression into r1) ---------- *)
+Definition b2z (b : bool) : Z := if b then 1 else 0.
+(* hidc's invariant for bool locals: the byte is 0 or 1 (`sub r, 1, x` needs it) *)
+Fixpoint bool_norm (m : mem) (e : bexpr) : Prop :=
+  match e with
+  | BVar j => bval m j = 0 \/ bval m j = 1
+  | BLit _ | BCmp _ _ _ => True
+  | BNot e1 => bool_norm m e1
+  | BAnd e1 e2 | BOr e1 e2 => bool_norm m e1 /\ bool_norm m e2
+  end.
+Lemma bool_norm_agree m m' e : regs_ok m -> agree (HI m) m m' -> vars_ok m e -> bool_norm m e -> bool_norm m' e.
+Proof.
+  intros L A. induction e as [b|j|op a b|e IH|e1 IH1 e2 IH2|e1 IH1 e2 IH2]; cbn [vars_ok bool_norm]; try tauto.
+  intros V. now rewrite (bval_agree (HI m) m m' j L A V).
+Qed.
+Lemma wrap_b2z b : wrap (b2z b) = b2z b.
+Proof. apply (wrap_small w). pose proof (W_ge w Hw1). unfold inrange. destruct b; cbn; lia. Qed.
+
+Lemma value_runs e rg st c st' p m : value_lowering E e rg st = (c, st') -> plc c p ->
+  layout_ok m -> vars_ok m e -> rg = R0 \/ rg = R1 ->
+  let m' := sw (run_mem e m) (ra rg) (b2z (beval m e)) in
+  runs (mk p m) [] (mk (p + size c) m') /\ agree (HI m) m m' /\ oval m' (St (ra rg)) = Some (b2z (beval m e)).
+Proof.
+  intros Ev P Lo V Hr m'. unfold value_lowering in Ev.
+  pose proof (run_mem_agree e m Lo V) as A.
+  pose proof (regs_ok_agree _ m _ (proj1 Lo) A) as L1.
+  assert (Ir : 0 <= ra rg /\ inb (run_mem e m) (ra rg) w = true) by (destruct L1, Hr; subst rg; cbn [regaddr]; split; assumption).
+  destruct Ir as [Ir0 Ir1].
+  pose proof (lower_runs e [AMov rg (SLit 1)] None [AMov rg (SLit 0)] None st c st' p m Ev eq_refl eq_refl P Lo V m') as Rn.
+  cbn [kexit] in Rn.
+  assert (Rs : run_simple (if beval m e then [AMov rg (SLit 1)] else [AMov rg (SLit 0)]) (run_mem e m) = Some m').
+  { unfold m'. destruct (beval m e); cbn [run_simple b2z]; unfold step_simple; cbn [res_ins res_sym exec val];
+      unfold setdest; cbn [mm]; rewrite Ir1; unfold nxtm; cbn [mm pc]; f_equal; apply sw_wrap_eq; apply (wrap_wrap w Hw1). }
+  destruct (beval m e) eqn:B; (split; [apply Rn; exact Rs|]); (split;
+    [eapply agree_trans; [exact A|]; apply agree_sw; [exact Ir0|]; destruct (ra_cases rg Hr) as [->| ->]; auto |
+     unfold m'; rewrite (oval_st_sw_same w Hw cmem _ _ _ Ir0 Ir1); f_equal; apply (wrap_b2z _)]).
+Qed.
+
+Lemma bool_value_runs e : forall st c v st' p m,
+  eval_bool_value E R1 e st = (c, v, st') -> plc c p ->
+  layout_ok m -> vars_ok m e -> bool_norm m e ->
+  exists m', runs (mk p m) [] (mk (p + size c) m') /\ agree (HI m) m m' /\
+             oval m' (rs v) = Some (b2z (beval m e)).
+Proof.
+  assert (Gen : forall e0, (match e0 with BCmp _ _ _ | BAnd _ _ | BOr _ _ => True | _ => False end) ->
+            forall st c v st' p m, eval_bool_value E R1 e0 st = (c, v, st') -> plc c p ->
+            layout_ok m -> vars_ok m e0 ->
+            exists m', runs (mk p m) [] (mk (p + size c) m') /\ agree (HI m) m m' /\ oval m' (rs v) = Some (b2z (beval m e0))).
+  { intros e0 Sh st c v st' p m Ev P Lo V.
+    assert (Ev' : exists c0, value_lowering E e0 R1 st = (c0, st') /\ c = c0 /\ v = SReg R1).
+    { destruct e0; try destruct Sh; cbn [eval_bool_value] in Ev;
+        match type of Ev with (let (_, _) := ?X in _) = _ => destruct X as [c0 st0] end; inversion Ev; subst; eauto. }
+    destruct Ev' as [c0 [Ev0 [-> ->]]].
+    destruct (value_runs e0 R1 st c0 st' p m Ev0 P Lo V (or_intror eq_refl)) as [Rn [A O]].
+    eexists. split; [exact Rn|]. split; [exact A | exact O]. }
+  induction e as [b|j|op a b|e IH|e1 IH1 e2 IH2|e1 IH1 e2 IH2]; intros st c v st' p m Ev P Lo V N.
+  - cbn [eval_bool_value] in Ev. inversion Ev; subst. exists m. cbn [size beval]. replace (p + 0) with p by lia.
+    split; [apply runs_refl|]. split; [apply agree_refl|]. cbn [res_sym]. rewrite oval_imm. f_equal.
+    destruct b; apply (wrap_b2z true) || apply (wrap_b2z false).
+  - cbn [eval_bool_value] in Ev. inversion Ev; subst; clear Ev.
+    cbn [plc res_ins res_sym regaddr] in P. destruct P as [Cl _].
+    destruct Lo as [Lo Ro]. cbn [vars_ok] in V. destruct V as [V1 [V2 [V3 V4]]].
+    pose proof (act_lbso p m r1 (St fp) (Imm (- bool_off E j)) (FP m) (wrap (- bool_off E j)) Cl
+                  (oval_st w cmem m fp (lo_if m Lo)) (oval_imm w cmem m _)) as A.
+    rewrite (frame_addr m _ Lo V1) in A. specialize (A V3 (lo_i1 m Lo)). fold (bval m j) in A.
+    exists (sw m r1 (bval m j)). cbn [size]. replace (p + (1 + 0)) with (p + 1) by lia.
+    split; [apply (runs_next act _ _ None A)|]. split; [apply agree_sw; [apply (lo_r1 m Lo) | auto]|].
+    cbn [res_sym regaddr beval]. rewrite (oval_st_sw_same w Hw cmem m _ _ (lo_r1 m Lo) (lo_i1 m Lo)). f_equal.
+    cbn [bool_norm] in N. destruct N as [-> | ->]; [apply (wrap_b2z false) | apply (wrap_b2z true)].
+  - apply (Gen (BCmp op a b) I st c v st' p m Ev P Lo V).
+  - cbn [eval_bool_value] in Ev. destruct (eval_bool_value E R1 e st) as [[c0 v0] st0] eqn:E0.
+    inversion Ev; subst; clear Ev. apply placed_app in P. destruct P as [P0 Ps].
+    cbn [vars_ok bool_norm] in V, N.
+    destruct (IH st c0 v0 st' p m E0 P0 Lo V N) as [m1 [R1' [A1 O1]]].
+    cbn [plc res_ins res_sym regaddr] in Ps. destruct Ps as [Cs _].
+    pose proof (regs_ok_agree _ m m1 (proj1 Lo) A1) as L1.
+    assert (W1 : wrap 1 = 1) by (apply (wrap_small w); pose proof (W_ge w Hw1); unfold inrange; lia).
+    pose proof (act_arith w code cmem _ m1 Asub r1 (Imm 1) _ (wrap 1) _ (wrap 1 - b2z (beval m e)) Cs
+                  (oval_imm w cmem m1 1) O1 eq_refl (lo_i1 m1 L1)) as Aa.
+    exists (sw m1 r1 (wrap 1 - b2z (beval m e))). rewrite size_app. cbn [size].
+    split.
+    { change (@nil event) with (@nil event ++ []). eapply runs_trans; [exact R1'|].
+      replace (p + (size c0 + (1 + 0))) with (p + size c0 + 1) by lia. apply (runs_next act _ _ None Aa). }
+    split; [eapply agree_trans; [exact A1|]; apply agree_sw; [apply (lo_r1 m1 L1) | auto]|].
+    cbn [res_sym regaddr beval]. rewrite (oval_st_sw_same w Hw cmem m1 _ _ (lo_r1 m1 L1) (lo_i1 m1 L1)). f_equal.
+    rewrite W1. destruct (beval m e); [apply (wrap_b2z false) | apply (wrap_b2z true)].
+  - apply (Gen (BAnd e1 e2) I st c v st' p m Ev P Lo V).
+  - apply (Gen (BOr e1 e2) I st c v st' p m Ev P Lo V).
+Qed.
+
+(* ---------- truth_is_defeat ---------- *)
+Definition is_test (e : bexpr) : Prop := match e with BOr _ _ | BLit _ => False | _ => True end.
+(* every test of truth_is_defeat: a silent prefix computing the operands, then [j [defeat];] hcc *)
+Lemma defeat_test e virt : is_test e -> forall st c st' p m,
+  lower_defeat E virt e st = (c, st') -> plc c p -> layout_ok m -> vars_ok m e -> bool_norm m e ->
+  exists cp cc l r m1 x y,
+    c = cp ++ defeat_jump virt ++ [AInstr (AHc cc l r)] /\
+    runs (mk p m) [] (mk (p + size cp) m1) /\ agree (HI m) m m1 /\
+    oval m1 (rs l) = Some x /\ oval m1 (rs r) = Some y /\ cond_holds w cc x y = beval m e.
+Proof.
+  intros Ts st c st' p m Ev P Lo V N.
+  assert (W0 : wrap 0 = 0) by (apply (wrap_small w); pose proof (W_pos w Hw1); unfold inrange; lia).
+  assert (Val : forall e0 cc, (cc = Cne \/ cc = Ceq) ->
+            (let '(c0, v, st0) := eval_bool_value E R1 e0 st in (c0 ++ defeat_jump virt ++ [AInstr (AHc cc v (SLit 0))], st0)) = (c, st') ->
+            vars_ok m e0 -> bool_norm m e0 ->
+            exists cp l r m1 x y,
+              c = cp ++ defeat_jump virt ++ [AInstr (AHc cc l r)] /\
+              runs (mk p m) [] (mk (p + size cp) m1) /\ agree (HI m) m m1 /\
+              oval m1 (rs l) = Some x /\ oval m1 (rs r) = Some y /\
+              cond_holds w cc x y = (if match cc with Cne => true | _ => false end then beval m e0 else negb (beval m e0))).
+  { intros e0 cc Hcc Ev0 V0 N0. destruct (eval_bool_value E R1 e0 st) as [[c0 v] st0] eqn:E0.
+    inversion Ev0; subst c st'; clear Ev0. apply placed_app in P. destruct P as [P0 _].
+    destruct (bool_value_runs e0 st c0 v st0 p m E0 P0 Lo V0 N0) as [m1 [R1' [A1 O1]]].
+    exists c0, v, (SLit 0), m1, (b2z (beval m e0)), (wrap 0).
+    split; [reflexivity|]. split; [exact R1'|]. split; [exact A1|]. split; [exact O1|]. split; [apply oval_imm|].
+    rewrite W0. destruct Hcc as [-> | ->]; cbn [cond_holds]; destruct (beval m e0); reflexivity. }
+  destruct e as [b|j|op a b|e1|e1 e2|e1 e2]; try destruct Ts; cbn [lower_defeat] in Ev.
+  - destruct (Val (BVar j) Cne (or_introl eq_refl) Ev V N) as [cp [l [r [m1 [x [y H]]]]]]. exists cp, Cne, l, r, m1, x, y. exact H.
+  - destruct Lo as [Lo Ro]. cbn [vars_ok] in V. destruct V as [Va [Vb Vt]].
+    destruct (cmp_props a b m Lo Ro Va Vb Vt) as [Ag Cc0].
+    destruct (compare_operands E a b) as [[co lhs] rhs] eqn:Eco. inversion Ev; subst c st'; clear Ev.
+    apply placed_app in P. destruct P as [Pco _].
+    destruct (Cc0 co lhs rhs p eq_refl Pco) as [Rco [Oa Ob]].
+    exists co, (compare_instr op), lhs, rhs, (pair_mem (stack_top E) a b m), (wval m a), (wval m b).
+    split; [reflexivity|]. split; [exact Rco|]. split; [exact Ag|]. split; [exact Oa|]. split; [exact Ob|].
+    rewrite (compare_instr_sem op _ _ (wval_range m a (lo_wf m Lo)) (wval_range m b (lo_wf m Lo))).
+    rewrite (sgn_wval _ m a (lo_wf m Lo) Va), (sgn_wval _ m b (lo_wf m Lo) Vb). reflexivity.
+  - cbn [vars_ok bool_norm] in V, N.
+    destruct (Val e1 Ceq (or_intror eq_refl) Ev V N) as [cp [l [r [m1 [x [y H]]]]]]. exists cp, Ceq, l, r, m1, x, y. exact H.
+  - destruct (Val (BAnd e1 e2) Cne (or_introl eq_refl) Ev V N) as [cp [l [r [m1 [x [y H]]]]]]. exists cp, Cne, l, r, m1, x, y. exact H.
+Qed.
+
+(* STATIC defeat (effective_defeat = halt): the lowered code halts iff the expression is true;
+   otherwise it falls through silently, having changed only r0, r1 and the temporaries *)
+Theorem defeat_static_runs e : forall st c st' p m,
+  lower_defeat E false e st = (c, st') -> plc c p -> layout_ok m -> vars_ok m e -> bool_norm m e ->
+  (beval m e = true -> Halts (mk p m)) /\
+  (beval m e = false -> exists m', runs (mk p m) [] (mk (p + size c) m') /\ agree (HI m) m m').
+Proof.
+  assert (Atom : forall e0, is_test e0 -> forall st c st' p m,
+            lower_defeat E false e0 st = (c, st') -> plc c p -> layout_ok m -> vars_ok m e0 -> bool_norm m e0 ->
+            (beval m e0 = true -> Halts (mk p m)) /\
+            (beval m e0 = false -> exists m', runs (mk p m) [] (mk (p + size c) m') /\ agree (HI m) m m')).
+  { intros e0 Ts st c st' p m Ev P Lo V N.
+    destruct (defeat_test e0 false Ts st c st' p m Ev P Lo V N) as [cp [cc [l [r [m1 [x [y [Ec [R1' [A1 [Ol [Or Cd]]]]]]]]]]]].
+    subst c. cbn [defeat_jump app] in *. apply placed_app in P. destruct P as [_ Pt].
+    cbn [plc res_ins] in Pt. destruct Pt as [Ct _].
+    destruct (defeat_call_static_cond w code cmem _ m1 cc _ _ x y Ct Ol Or) as [Ht Hf]. rewrite Cd in Ht, Hf.
+    split; intros B.
+    - apply (proj1 R1'). apply Ht. exact B.
+    - exists m1. split; [|exact A1]. rewrite size_app. cbn [size].
+      change (@nil event) with (@nil event ++ []). eapply runs_trans; [exact R1'|].
+      replace (p + (size cp + (1 + 0))) with (p + size cp + 1) by lia. apply Hf. exact B. }
+  induction e as [b|j|op a b|e IH|e1 IH1 e2 IH2|e1 IH1 e2 IH2]; intros st c st' p m Ev P Lo V N;
+    try (apply (fun T => Atom _ T st c st' p m Ev P Lo V N); exact I).
+  - cbn [lower_defeat defeat_jump app] in Ev. inversion Ev; subst c st'; clear Ev. cbn [beval]. destruct b.
+    + cbn [plc res_ins] in P. destruct P as [Ch _]. split; [intros _; apply (defeat_call_static w code cmem p m Ch) | discriminate].
+    + split; [discriminate|]. intros _. exists m. cbn [size]. replace (p + 0) with p by lia. split; [apply runs_refl | apply agree_refl].
+  - cbn [lower_defeat] in Ev. destruct (lower_defeat E false e1 st) as [c1 st1] eqn:E1.
+    destruct (lower_defeat E false e2 st1) as [c2 st2] eqn:E2. inversion Ev; subst c st'; clear Ev.
+    apply placed_app in P. destruct P as [P1 P2]. cbn [vars_ok bool_norm beval] in *. destruct V as [V1 V2]. destruct N as [N1 N2].
+    destruct (IH1 st c1 st1 p m E1 P1 Lo V1 N1) as [T1 F1].
+    destruct (beval m e1) eqn:B1; cbn [orb].
+    + split; [intros _; apply T1; reflexivity | discriminate].
+    + destruct (F1 eq_refl) as [m1 [R1' A1]].
+      pose proof (layout_ok_agree _ m m1 Lo A1) as Lo1.
+      pose proof (vars_ok_agree m m1 e2 (proj1 Lo) A1 V2) as V21.
+      pose proof (bool_norm_agree m m1 e2 (proj1 Lo) A1 V2 N2) as N21.
+      destruct (IH2 st1 c2 st2 (p + size c1) m1 E2 P2 Lo1 V21 N21) as [T2 F2].
+      rewrite (beval_agree m m1 e2 (proj1 Lo) A1 V2) in T2, F2.
+      split; intros B2.
+      * apply (proj1 R1'). apply T2. exact B2.
+      * destruct (F2 B2) as [m2 [R2 A2]]. exists m2. rewrite size_app. split.
+        -- change (@nil event) with (@nil event ++ []). eapply runs_trans; [exact R1'|].
+           replace (p + (size c1 + size c2)) with (p + size c1 + size c2) by lia. exact R2.
+        -- eapply agree_trans; [exact A1|]. rewrite <- (HI_agree _ m m1 (proj1 Lo) A1). exact A2.
+Qed.
+
+(* VIRTUAL defeat (effective_defeat = [defeat]): every test is `j [defeat]; hcc`.  The defeat word
+   lies outside everything the evaluation writes. *)
+Notation dw := (a_defeat R).
+Definition defeat_ok (m : mem) : Prop := 0 <= dw /\ inb m dw w = true /\ dj (HI m) dw w.
+Lemma defeat_ok_agree m m' : regs_ok m -> agree (HI m) m m' -> defeat_ok m -> defeat_ok m' /\ lw m' dw = lw m dw.
+Proof.
+  intros L A [D0 [D1 D2]]. split.
+  - split; [exact D0|]. split; [now rewrite (agree_inb _ m m' _ _ A) | now rewrite (HI_agree _ m m' L A)].
+  - apply (agree_lw (HI m)); assumption.
+Qed.
+(* one test, all three cases of TimeTravel.defeat_call_virtual_cond: after the silent operand
+   prefix (state q, memory m1),
+   (1) the expression is true: control goes to the handler;
+   (2) false and the continuation does not halt: control falls through;
+   (3) false but the continuation HALTS: control goes to the handler although the test failed *)
+Theorem defeat_virtual_test e : is_test e -> forall st c st' p m,
+  lower_defeat E true e st = (c, st') -> plc c p -> layout_ok m -> vars_ok m e -> bool_norm m e ->
+  defeat_ok m ->
+  let hd := lw m dw in
+  exists m1, agree (HI m) m m1 /\ exists q, runs (mk p m) [] (mk q m1) /\ q + 2 = p + size c /\
+    (beval m e = true -> runs (mk q m1) [] (mk hd m1)) /\
+    (beval m e = false -> ~ Halts (mk (q + 2) m1) -> runs (mk q m1) [] (mk (q + 2) m1) /\ ~ Halts (mk q m1)) /\
+    (beval m e = false -> Halts (mk (q + 2) m1) -> runs (mk q m1) [] (mk hd m1)).
+Proof.
+  intros Ts st c st' p m Ev P Lo V N Dk hd.
+  destruct (defeat_test e true Ts st c st' p m Ev P Lo V N) as [cp [cc [l [r [m1 [x [y [Ec [R1' [A1 [Ol [Or Cd]]]]]]]]]]]].
+  subst c. cbn [defeat_jump app] in *. apply placed_app in P. destruct P as [_ Pt].
+  cbn [plc res_ins res_sym regaddr] in Pt. destruct Pt as [Cj [Ct _]].
+  destruct (defeat_ok_agree m m1 (proj1 Lo) A1 Dk) as [[D0 [D1 D2]] Eh].
+  destruct (defeat_call_virtual_cond w code cmem _ m1 dw cc _ _ x y Cj D1 Ct Ol Or) as [H1 [H2 H3]].
+  rewrite Eh in H1, H3. fold hd in H1, H3. rewrite Cd in H1, H2, H3.
+  exists m1. split; [exact A1|]. exists (p + size cp). split; [exact R1'|]. split; [rewrite size_app; cbn [size]; lia|].
+  split; [intros B; apply (H1 B)|]. split; [intros B Nh; apply (H2 B Nh) | intros B Hh; apply (H3 B Hh)].
+Qed.
+
+(* the whole expression, when the handler never halts (C03: a compiled program never halts):
+   true -> control reaches the handler; false and the continuation never halts -> falls through *)
+Theorem defeat_virtual_runs e : forall st c st' p m,
+  lower_defeat E true e st = (c, st') -> plc c p -> layout_ok m -> vars_ok m e -> bool_norm m e ->
+  defeat_ok m ->
+  (forall m', agree (HI m) m m' -> ~ Halts (mk (lw m dw) m')) ->
+  (beval m e = true -> exists m', agree (HI m) m m' /\ runs (mk p m) [] (mk (lw m dw) m')) /\
+  (beval m e = false -> (forall m', agree (HI m) m m' -> ~ Halts (mk (p + size c) m')) ->
+     exists m', agree (HI m) m m' /\ runs (mk p m) [] (mk (p + size c) m')).
+Proof.
+  assert (Atom : forall e0, is_test e0 -> forall st c st' p m,
+            lower_defeat E true e0 st = (c, st') -> plc c p -> layout_ok m -> vars_ok m e0 -> bool_norm m e0 ->
+            defeat_ok m ->
+            (forall m', agree (HI m) m m' -> ~ Halts (mk (lw m dw) m')) ->
+            (beval m e0 = true -> exists m', agree (HI m) m m' /\ runs (mk p m) [] (mk (lw m dw) m')) /\
+            (beval m e0 = false -> (forall m', agree (HI m) m m' -> ~ Halts (mk (p + size c) m')) ->
+               exists m', agree (HI m) m m' /\ runs (mk p m) [] (mk (p + size c) m'))).
+  { intros e0 Ts st c st' p m Ev P Lo V N Dk Nh.
+    destruct (defeat_virtual_test e0 Ts st c st' p m Ev P Lo V N Dk) as [m1 [A1 [q [R1' [Eq [H1 [H2 _]]]]]]].
+    split.
+    - intros B. exists m1. split; [exact A1|]. change (@nil event) with (@nil event ++ []).
+      eapply runs_trans; [exact R1' | apply H1; exact B].
+    - intros B Nc. exists m1. split; [exact A1|]. change (@nil event) with (@nil event ++ []).
+      eapply runs_trans; [exact R1'|]. rewrite <- Eq. apply H2; [exact B|]. rewrite Eq. apply Nc. exact A1. }
+  induction e as [b|j|op a b|e IH|e1 IH1 e2 IH2|e1 IH1 e2 IH2]; intros st c st' p m Ev P Lo V N Dk Nh;
+    try (apply (fun T => Atom _ T st c st' p m Ev P Lo V N Dk Nh); exact I).
+  - cbn [lower_defeat defeat_jump app] in Ev. inversion Ev; subst c st'; clear Ev. cbn [beval]. destruct b.
+    + cbn [plc res_ins res_sym regaddr] in P. destruct P as [Cj [Ch _]]. destruct Dk as [D0 [D1 D2]].
+      split; [|discriminate]. intros _. exists m. split; [apply agree_refl|].
+      apply (defeat_call_virtual w code cmem p m dw Cj Ch D1).
+    + split; [discriminate|]. intros _ _. exists m. cbn [size]. replace (p + 0) with p by lia. split; [apply agree_refl | apply runs_refl].
+  - cbn [lower_defeat] in Ev. destruct (lower_defeat E true e1 st) as [c1 st1] eqn:E1.
+    destruct (lower_defeat E true e2 st1) as [c2 st2] eqn:E2. inversion Ev; subst c st'; clear Ev.
+    apply placed_app in P. destruct P as [P1 P2]. cbn [vars_ok bool_norm beval] in *. destruct V as [V1 V2]. destruct N as [N1 N2].
+    destruct (IH1 st c1 st1 p m E1 P1 Lo V1 N1 Dk Nh) as [T1 F1].
+    (* the right operand started in any memory agreeing with m *)
+    assert (At : forall m1, agree (HI m) m m1 ->
+              (beval m e2 = true -> exists m', agree (HI m) m m' /\ runs (mk (p + size c1) m1) [] (mk (lw m dw) m')) /\
+              (beval m e2 = false -> (forall m', agree (HI m) m m' -> ~ Halts (mk (p + size c1 + size c2) m')) ->
+                 exists m', agree (HI m) m m' /\ runs (mk (p + size c1) m1) [] (mk (p + size c1 + size c2) m'))).
+    { intros m1 A1.
+      pose proof (layout_ok_agree _ m m1 Lo A1) as Lo1.
+      pose proof (vars_ok_agree m m1 e2 (proj1 Lo) A1 V2) as V21.
+      pose proof (bool_norm_agree m m1 e2 (proj1 Lo) A1 V2 N2) as N21.
+      destruct (defeat_ok_agree m m1 (proj1 Lo) A1 Dk) as [Dk1 Eh].
+      pose proof (HI_agree _ m m1 (proj1 Lo) A1) as EH.
+      destruct (IH2 st1 c2 st2 (p + size c1) m1 E2 P2 Lo1 V21 N21 Dk1) as [T2 F2].
+      { intros m' A'. rewrite Eh. apply Nh. eapply agree_trans; [exact A1|]. rewrite <- EH. exact A'. }
+      rewrite (beval_agree m m1 e2 (proj1 Lo) A1 V2) in T2, F2. rewrite Eh in T2. rewrite EH in T2, F2.
+      split.
+      - intros B. destruct (T2 B) as [m' [A' R']]. exists m'. split; [eapply agree_trans; eauto | exact R'].
+      - intros B Nc. destruct (F2 B) as [m' [A' R']].
+        { intros m' A'. apply Nc. eapply agree_trans; eauto. }
+        exists m'. split; [eapply agree_trans; eauto | exact R']. }
+    (* hence the continuation of the left operand's tests never halts when it should not *)
+    destruct (beval m e1) eqn:B1; cbn [orb].
+    + split; [intros _; apply T1; reflexivity | discriminate].
+    + rewrite size_app. replace (p + (size c1 + size c2)) with (p + size c1 + size c2) by lia.
+      split.
+      * intros B2.
+        destruct (F1 eq_refl) as [m1 [A1 R1']].
+        { intros m' A'. destruct (proj1 (At m' A') B2) as [m'' [A'' R'']]. intro Hh. apply (Nh m'' A''). apply (proj1 R''). exact Hh. }
+        destruct (proj1 (At m1 A1) B2) as [m2 [A2 R2]]. exists m2. split; [exact A2|].
+        change (@nil event) with (@nil event ++ []). eapply runs_trans; eauto.
+      * intros B2 Nc.
+        destruct (F1 eq_refl) as [m1 [A1 R1']].
+        { intros m' A'. destruct (proj2 (At m' A') B2 Nc) as [m'' [A'' R'']]. intro Hh. apply (Nc m'' A''). apply (proj1 R''). exact Hh. }
+        destruct (proj2 (At m1 A1) B2 Nc) as [m2 [A2 R2]]. exists m2. split; [exact A2|].
+        change (@nil event) with (@nil event ++ []). eapply runs_trans; eauto.
+Qed.
 End Sem.
+
+(* ---------- labels of the value / defeat lowerings ---------- *)
+Lemma st_le_refl st : st_le st st.
+Proof. intros n; lia. Qed.
+Lemma defs_app_sep st st1 st2 c1 c2 :
+  st_le st st1 -> st_le st1 st2 ->
+  Forall (between st st1) (deflabels c1) -> NoDup (deflabels c1) ->
+  Forall (between st1 st2) (deflabels c2) -> NoDup (deflabels c2) ->
+  Forall (between st st2) (deflabels (c1 ++ c2)) /\ NoDup (deflabels (c1 ++ c2)).
+Proof.
+  intros M1 M2 F1 D1 F2 D2. rewrite deflabels_app. split.
+  - apply Forall_app. split.
+    + eapply Forall_impl; [|exact F1]. intros x. apply between_weaken; [apply st_le_refl | exact M2].
+    + eapply Forall_impl; [|exact F2]. intros x. apply between_weaken; [exact M1 | apply st_le_refl].
+  - apply NoDup_app_intro; [exact D1 | exact D2|]. intros x I1 I2.
+    rewrite Forall_forall in F1, F2. specialize (F1 _ I1). specialize (F2 _ I2). unfold between in *. lia.
+Qed.
+Lemma eval_bool_value_defs E e : forall r st c v st', eval_bool_value E r e st = (c, v, st') ->
+  st_le st st' /\ Forall (between st st') (deflabels c) /\ NoDup (deflabels c).
+Proof.
+  assert (Gen : forall e0 r st c v st',
+            (let (c0, st0) := value_lowering E e0 r st in (c0, SReg r, st0)) = (c, v, st') ->
+            st_le st st' /\ Forall (between st st') (deflabels c) /\ NoDup (deflabels c)).
+  { intros e0 r st c v st' Ev. unfold value_lowering in Ev.
+    destruct (lower_branch E e0 [AInstr (AMov r (SLit 1))] [AInstr (AMov r (SLit 0))] st) as [c0 st0] eqn:L.
+    inversion Ev; subst. apply (lower_branch_defs E e0 _ _ _ _ _ L); reflexivity. }
+  induction e as [b|j|op a b|e IH|e1 IH1 e2 IH2|e1 IH1 e2 IH2]; intros r st c v st' Ev; cbn [eval_bool_value] in Ev;
+    try (apply (Gen _ r st c v st' Ev)).
+  - inversion Ev; subst. split; [apply st_le_refl|]. split; constructor.
+  - inversion Ev; subst. split; [apply st_le_refl|]. split; constructor.
+  - destruct (eval_bool_value E r e st) as [[c0 v0] st0] eqn:E0. inversion Ev; subst.
+    destruct (IH r st c0 v0 st' E0) as [M [F D]]. split; [exact M|]. defl. rewrite app_nil_r. split; assumption.
+Qed.
+Lemma defeat_jump_nolabels virt : deflabels (defeat_jump virt) = [].
+Proof. destruct virt; reflexivity. Qed.
+Lemma lower_defeat_defs E virt e : forall st c st', lower_defeat E virt e st = (c, st') ->
+  st_le st st' /\ Forall (between st st') (deflabels c) /\ NoDup (deflabels c).
+Proof.
+  assert (Val : forall e0 cc st c st',
+            (let '(c0, v, st0) := eval_bool_value E R1 e0 st in (c0 ++ defeat_jump virt ++ [AInstr (AHc cc v (SLit 0))], st0)) = (c, st') ->
+            st_le st st' /\ Forall (between st st') (deflabels c) /\ NoDup (deflabels c)).
+  { intros e0 cc st c st' Ev. destruct (eval_bool_value E R1 e0 st) as [[c0 v] st0] eqn:E0. inversion Ev; subst.
+    destruct (eval_bool_value_defs E e0 R1 st c0 v st' E0) as [M [F D]]. split; [exact M|].
+    defl. rewrite defeat_jump_nolabels. cbn [app]. rewrite app_nil_r. split; assumption. }
+  induction e as [b|j|op a b|e IH|e1 IH1 e2 IH2|e1 IH1 e2 IH2]; intros st c st' Ev; cbn [lower_defeat] in Ev.
+  - inversion Ev; subst. split; [apply st_le_refl|]. destruct b; defl; rewrite ?defeat_jump_nolabels; split; constructor.
+  - apply (Val (BVar j) Cne st c st' Ev).
+  - pose proof (compare_operands_nolabels E a b) as Dc.
+    destruct (compare_operands E a b) as [[co lhs] rhs]. cbn [fst] in Dc. inversion Ev; subst.
+    split; [apply st_le_refl|]. defl. rewrite Dc, defeat_jump_nolabels. split; constructor.
+  - apply (Val e Ceq st c st' Ev).
+  - apply (Val (BAnd e1 e2) Cne st c st' Ev).
+  - destruct (lower_defeat E virt e1 st) as [c1 st1] eqn:E1. destruct (lower_defeat E virt e2 st1) as [c2 st2] eqn:E2.
+    inversion Ev; subst. destruct (IH1 _ _ _ E1) as [M1 [F1 D1]]. destruct (IH2 _ _ _ E2) as [M2 [F2 D2]].
+    split; [eapply st_le_trans; eauto|]. apply (defs_app_sep st st1 st'); assumption.
+Qed.
 
 (* ================================================================================= *)
 (* E  theorems on resolved code                                                       *)
 (* ================================================================================= *)
 Lemma below_not_between st st' x : below st x -> ~ between st st' x.
 Proof. unfold below, between. lia. Qed.
+Lemma resolved_placed code R ext B C Wd :
+  (forall x, 0 <= ext x < Wd) -> NoDup (deflabels C) -> code_at code B (resolve R ext B C) ->
+  0 <= B -> B + size C < Wd ->
+  placed R (labenv ext B C) code C B /\ (forall l, 0 <= labenv ext B C l < Wd).
+Proof.
+  intros He Nd CA HB HS. split; [apply resolve_placed; assumption | apply labenv_range; assumption].
+Qed.
 
 Section Top.
 Variable w : Z.
@@ -994,6 +1861,8 @@ Variable code : Z -> option instr.
 Variable cmem : mem.
 Variable R : regmap.
 Variable E : env.
+Hypothesis HwE : wsize E = w.
+Variable lo : Z.                     (* lowest address the pushed temporaries may occupy *)
 Variable ext : label -> Z.           (* addresses of the labels defined outside the lowered block *)
 Hypothesis ext_range : forall x, 0 <= ext x < Machine.W w.
 Notation act := (Machine.act w code cmem).
@@ -1001,8 +1870,90 @@ Notation Halts := (HidV.Sphinx.Halts.Halts act).
 Notation runs := (HidV.Sphinx.Halts.runs act).
 Notation csteps := (HidV.Sphinx.Halts.csteps act).
 
-(* General form: if_true = pt ++ [goto gt], if_false = pf ++ [goto gf], where pt, pf are
-   straight-line and the gotos optional.  The code is the two-pass resolution of the model's
+(* ARITHMETIC (DESIGN C01 item 3).  For every int expression tree o over literals, int locals,
+   + - * and unary - + (any nesting), eval_expr(rg, o, keep) lowered at frame offset top:
+   the code runs silently (Halts-equivalent, no events) into eval_mem; only r0, r1 and the
+   temporaries' area [lo, fp - top) change; the value ⟦o⟧ mod 2^(8w) is where the returned bubble
+   says; and its signed reading is the source value. *)
+Theorem arith_lowering_correct o top rg keep B m :
+  let C := fst (eval_opd E top rg o keep) in
+  let bub := snd (eval_opd E top rg o keep) in
+  code_at code B (resolve R ext B C) ->
+  0 <= B -> B + size C < Machine.W w ->
+  rg = R0 \/ rg = R1 ->
+  regs_ok w R lo m -> room_ok w R lo top m -> oexp_ok w R E lo (FP w R m - top) m o ->
+  Z.of_nat (temps o keep) * w <= FP w R m - top - lo ->
+  let m' := eval_mem w R E top rg o keep m in
+  runs (mk B m) [] (mk (B + size C) m') /\
+  agree w R lo (FP w R m - top) m m' /\
+  bub = bub_of E top rg o keep /\
+  bub_val w R m' bub = wval w R E m o /\
+  wval w R E m o = Machine.wrap w (sval w R E m o) /\
+  Machine.sgn w (wval w R E m o) = sval w R E m o.
+Proof.
+  intros C bub CA HB HS Hr L Ro O T m'.
+  assert (Nd : NoDup (deflabels C)) by (unfold C; rewrite eval_opd_nolabels; constructor).
+  destruct (resolved_placed code R ext B C _ ext_range Nd CA HB HS) as [P _].
+  destruct (eval_opd_props w R E lo Hw HwE code cmem (labenv ext B C) o top rg keep m Hr L Ro O T) as [A [V Cd]].
+  assert (Eb : bub = bub_of E top rg o keep) by apply eval_opd_bub.
+  split; [apply (Cd C bub B); [unfold C, bub; now destruct (eval_opd E top rg o keep) | exact P]|].
+  split; [exact A|]. split; [exact Eb|]. split; [rewrite Eb; exact V|].
+  assert (Hw1 : 1 <= w) by lia.
+  pose proof (sgn_wval w R E lo Hw _ m o (lo_wf w R lo m L) O) as Sg.
+  split; [|exact Sg]. rewrite <- Sg. symmetry. apply (wrap_sgn w Hw1). apply wval_range; [exact Hw | apply (lo_wf w R lo m L)].
+Qed.
+(* get_expr_value(rg, o): the value as an operand *)
+Theorem get_expr_value_correct o top rg B m :
+  let ev := eval_opd E top rg o false in
+  let C := fst ev ++ fst (pop_value rg (snd ev)) in
+  let v := snd (pop_value rg (snd ev)) in
+  code_at code B (resolve R ext B C) ->
+  0 <= B -> B + size C < Machine.W w ->
+  rg = R0 \/ rg = R1 ->
+  regs_ok w R lo m -> room_ok w R lo top m -> oexp_ok w R E lo (FP w R m - top) m o ->
+  Z.of_nat (temps o false) * w <= FP w R m - top - lo ->
+  let m' := pop_mem w R rg (bub_of E top rg o false) (eval_mem w R E top rg o false m) in
+  runs (mk B m) [] (mk (B + size C) m') /\
+  agree w R lo (FP w R m - top) m m' /\
+  Idioms.oval w cmem m' (res_sym R ext v) = Some (wval w R E m o).
+Proof.
+  intros ev C v CA HB HS Hr L Ro O T m'.
+  assert (Hw1 : 1 <= w) by lia.
+  assert (Nd : NoDup (deflabels C)).
+  { unfold C, ev. rewrite deflabels_app, eval_opd_nolabels, pop_value_nolabels. constructor. }
+  destruct (resolved_placed code R ext B C _ ext_range Nd CA HB HS) as [P _].
+  set (lab := labenv ext B C) in *.
+  destruct (eval_opd_props w R E lo Hw HwE code cmem lab o top rg false m Hr L Ro O T) as [A [V Cd]].
+  set (m1 := eval_mem w R E top rg o false m) in *.
+  pose proof (regs_ok_agree w R lo Hw _ m m1 L A) as L1. pose proof (FP_agree w R lo Hw _ m m1 L A) as F1.
+  pose proof (room_ok_agree w R lo Hw _ top m m1 L A Ro) as Ro1.
+  assert (Bok : bub_ok w R lo (FP w R m1 - top) m1 (bub_of E top rg o false)).
+  { pose proof (bub_of_ok w R E lo Hw HwE top rg o false m1 Hr L1 Ro1) as Bk. rewrite top_after_bub in Bk.
+    unfold pushed in Bk. cbn [andb] in Bk. change (Z.of_nat 0) with 0 in Bk. replace (top + 0 * wsize E) with top in Bk by lia.
+    apply Bk; [|destruct Ro1; lia]. rewrite F1. apply (oexp_ok_agree w R E lo Hw _ (FP w R m - top) m m1); assumption. }
+  destruct (pop_props w R lo Hw code cmem lab rg _ _ m1 Hr L1 Bok) as [A2 [S2 C2]].
+  apply placed_app in P. destruct P as [P1 P2].
+  assert (Eb : snd ev = bub_of E top rg o false) by apply eval_opd_bub.
+  split.
+  - unfold C. rewrite size_app. change (@nil event) with (@nil event ++ []).
+    eapply runs_trans; [apply (Cd (fst ev) (snd ev) B); [unfold ev; now destruct (eval_opd E top rg o false) | exact P1]|].
+    replace (B + (size (fst ev) + size (fst (pop_value rg (snd ev))))) with (B + size (fst ev) + size (fst (pop_value rg (snd ev)))) by lia.
+    rewrite Eb in *. apply (C2 _ (snd (pop_value rg (bub_of E top rg o false)))); [now destruct (pop_value rg (bub_of E top rg o false)) | exact P2].
+  - split.
+    + eapply (agree_trans w R lo); [exact A|]. apply (agree_mono w R lo lo); [destruct Ro; lia | exact A2].
+    + unfold v. rewrite Eb. fold (sym_of rg (bub_of E top rg o false)). rewrite V in S2.
+      pose proof (symval_oval w R cmem ext _ _ _ S2) as Ov. exact Ov.
+Qed.
+
+Lemma deflabels_kl pre g : deflabels (kl pre g) = [].
+Proof.
+  unfold kl. rewrite deflabels_app.
+  assert (X : deflabels (map AInstr pre) = []) by (induction pre as [|i r IH]; [reflexivity | exact IH]).
+  rewrite X. destruct g; reflexivity.
+Qed.
+
+(* BRANCH POSITION, general form: if_true = pt ++ [goto gt], if_false = pf ++ [goto gf], where pt, pf
+   are straight-line and the gotos optional.  The code is the two-pass resolution of the model's
    output at base B; labels that the block does not define go through ext. *)
 Theorem lowering_correct_gen e pt gt pf gf st B m :
   let C := fst (lower_branch E e (kl pt gt) (kl pf gf) st) in
@@ -1011,26 +1962,22 @@ Theorem lowering_correct_gen e pt gt pf gf st B m :
   0 <= B -> B + size C < Machine.W w ->
   forallb simple pt = true -> forallb simple pf = true ->
   (forall L, gt = Some L -> below st L) -> (forall L, gf = Some L -> below st L) ->
-  layout_ok w R m -> vars_ok w R E m e ->
+  layout_ok w R E lo m -> vars_ok w R E lo m e ->
   let b := beval w R E m e in
   let m' := run_mem w R E e m in
-  agree w R m m' /\
+  agree w R lo (HI w R E m) m m' /\
   m' = fold_left (atom_mem w R E) (trace w R E m e) m /\
   forall m'', run_simple w R cmem lab (if b then pt else pf) m' = Some m'' ->
     runs (mk B m) [] (mk (match (if b then gt else gf) with Some L => ext L | None => B + size C end) m'').
 Proof.
   intros C lab CA HB HS Spt Spf Bt Bf Lo V b m'.
-  split; [apply run_mem_agree; assumption|]. split; [apply run_mem_trace; assumption|].
-  intros m'' Rs.
   destruct (lower_branch E e (kl pt gt) (kl pf gf) st) as [C0 st'] eqn:L. cbn [fst] in C. subst C.
-  assert (Dk : forall pre g, deflabels (kl pre g) = []).
-  { intros pre g. unfold kl. rewrite deflabels_app.
-    assert (X : deflabels (map AInstr pre) = []) by (induction pre as [|i r IH]; [reflexivity | exact IH]).
-    rewrite X. destruct g; reflexivity. }
-  destruct (lower_branch_defs E e _ _ _ _ _ L (Dk pt gt) (Dk pf gf)) as [_ [Fb Nd]].
-  pose proof (resolve_placed R ext code B C0 Nd CA) as P.
-  pose proof (labenv_range ext B C0 (Machine.W w) ext_range HB HS) as LR.
-  pose proof (lower_runs w R E Hw code cmem lab LR e pt gt pf gf st C0 st' B m L Spt Spf P Lo V m'' Rs) as Rn.
+  destruct (lower_branch_defs E e _ _ _ _ _ L (deflabels_kl pt gt) (deflabels_kl pf gf)) as [_ [Fb Nd]].
+  destruct (resolved_placed code R ext B C0 _ ext_range Nd CA HB HS) as [P LR]. fold lab in P, LR.
+  split; [apply (run_mem_agree w R E lo Hw HwE code cmem lab); assumption|].
+  split; [apply (run_mem_trace w R E lo Hw HwE code cmem lab); assumption|].
+  intros m'' Rs.
+  pose proof (lower_runs w R E lo Hw HwE code cmem lab LR e pt gt pf gf st C0 st' B m L Spt Spf P Lo V m'' Rs) as Rn.
   fold b in Rn.
   replace (match (if b then gt else gf) with Some L0 => ext L0 | None => B + size C0 end)
     with (kexit lab (if b then gt else gf) (B + size C0)); [exact Rn|].
@@ -1047,10 +1994,10 @@ Theorem branch_lowering_correct e T F st B m :
   code_at code B (resolve R ext B C) ->
   0 <= B -> B + size C < Machine.W w ->
   below st T -> below st F ->
-  layout_ok w R m -> vars_ok w R E m e ->
+  layout_ok w R E lo m -> vars_ok w R E lo m e ->
   let m' := run_mem w R E e m in
   runs (mk B m) [] (mk (if beval w R E m e then ext T else ext F) m') /\
-  agree w R m m' /\
+  agree w R lo (HI w R E m) m m' /\
   m' = fold_left (atom_mem w R E) (trace w R E m e) m.
 Proof.
   intros C CA HB HS BT BF Lo V m'.
@@ -1060,14 +2007,12 @@ Proof.
   - split; [|split; assumption]. specialize (Rn m').
     destruct (beval w R E m e); apply Rn; reflexivity.
 Qed.
-(* the same, spelled out: Halts is transported both ways, and when the chosen continuation
-   does not halt the committed run goes exactly there, silently *)
 Corollary branch_lowering_halts e T F st B m :
   let C := fst (lower_branch E e (goto T) (goto F) st) in
   code_at code B (resolve R ext B C) ->
   0 <= B -> B + size C < Machine.W w ->
   below st T -> below st F ->
-  layout_ok w R m -> vars_ok w R E m e ->
+  layout_ok w R E lo m -> vars_ok w R E lo m e ->
   let s' := mk (if beval w R E m e then ext T else ext F) (run_mem w R E e m) in
   (Halts (mk B m) <-> Halts s') /\ (~ Halts s' -> csteps (mk B m) [] s').
 Proof. intros C CA HB HS BT BF Lo V. exact (proj1 (branch_lowering_correct e T F st B m CA HB HS BT BF Lo V)). Qed.
@@ -1078,10 +2023,10 @@ Theorem fallthrough_lowering_correct e Else st B m :
   code_at code B (resolve R ext B C) ->
   0 <= B -> B + size C < Machine.W w ->
   below st Else ->
-  layout_ok w R m -> vars_ok w R E m e ->
+  layout_ok w R E lo m -> vars_ok w R E lo m e ->
   let m' := run_mem w R E e m in
   runs (mk B m) [] (mk (if beval w R E m e then B + size C else ext Else) m') /\
-  agree w R m m' /\
+  agree w R lo (HI w R E m) m m' /\
   m' = fold_left (atom_mem w R E) (trace w R E m e) m.
 Proof.
   intros C CA HB HS BE Lo V m'.
@@ -1091,16 +2036,15 @@ Proof.
   - split; [|split; assumption]. specialize (Rn m').
     destruct (beval w R E m e); apply Rn; reflexivity.
 Qed.
-(* ... as gen_block uses it: else_N / end_else_N allocated first *)
 Theorem if_block_lowering_correct e st B m :
   let C := fst (fst (fst (if_block E e st))) in
   let else_label := snd (fst (fst (if_block E e st))) in
   code_at code B (resolve R ext B C) ->
   0 <= B -> B + size C < Machine.W w ->
-  layout_ok w R m -> vars_ok w R E m e ->
+  layout_ok w R E lo m -> vars_ok w R E lo m e ->
   let m' := run_mem w R E e m in
   runs (mk B m) [] (mk (if beval w R E m e then B + size C else ext else_label) m') /\
-  agree w R m m' /\
+  agree w R lo (HI w R E m) m m' /\
   m' = fold_left (atom_mem w R E) (trace w R E m e) m.
 Proof.
   unfold if_block.
@@ -1112,124 +2056,289 @@ Proof.
   inversion A1; inversion A2; subst. unfold below; cbn. lia.
 Qed.
 
-(* C09 item 6: the VALUE lowering of a boolean operator (eval_expr, BooleanOp case, keep = False)
-   leaves 1 in r_out iff the expression is true, else 0, and continues after the block *)
+(* C09 item 6: VALUE position (eval_expr, BooleanOp case, keep = False) *)
 Theorem value_lowering_correct e rout st B m :
   let C := fst (value_lowering E e rout st) in
   code_at code B (resolve R ext B C) ->
   0 <= B -> B + size C < Machine.W w ->
-  layout_ok w R m -> vars_ok w R E m e ->
-  0 <= regaddr R rout -> inb m (regaddr R rout) w = true ->
+  layout_ok w R E lo m -> vars_ok w R E lo m e ->
+  rout = R0 \/ rout = R1 ->
   let v := if beval w R E m e then 1 else 0 in
   let m'' := Machine.sw w (run_mem w R E e m) (regaddr R rout) v in
-  runs (mk B m) [] (mk (B + size C) m'') /\ Machine.lw w m'' (regaddr R rout) = v.
+  runs (mk B m) [] (mk (B + size C) m'') /\ Machine.lw w m'' (regaddr R rout) = v /\
+  agree w R lo (HI w R E m) m m''.
 Proof.
-  intros C CA HB HS Lo V Hr Ir v m''.
-  assert (Hw1 : 1 <= w) by lia.
-  destruct (lowering_correct_gen e [AMov rout (SLit 1)] None [AMov rout (SLit 0)] None st B m CA HB HS eq_refl eq_refl) as [A [_ Rn]]; try assumption;
-    try (intros L X; discriminate X).
-  assert (I' : inb (run_mem w R E e m) (regaddr R rout) w = true) by (rewrite (agree_inb w R _ _ _ _ A); exact Ir).
-  assert (Wv : Machine.wrap w v = v).
-  { apply (wrap_small w). pose proof (W_ge w Hw1). unfold inrange, v. destruct (beval w R E m e); lia. }
-  split.
-  - specialize (Rn m''). unfold m'', v in *. clear m'' v.
-    destruct (beval w R E m e); apply Rn; cbn [run_simple]; unfold step_simple; cbn [res_ins res_sym exec val];
-      unfold setdest; cbn [mm]; rewrite I'; unfold nxtm; cbn [mm pc]; f_equal; unfold Machine.sw; f_equal;
-      apply (wrap_wrap w Hw1).
-  - unfold m''. rewrite (lw_sw_same w Hw1) by exact Hr. exact Wv.
+  intros C CA HB HS Lo V Hr v m''.
+  destruct (value_lowering E e rout st) as [C0 st'] eqn:L. cbn [fst] in C. subst C.
+  assert (Nd : NoDup (deflabels C0)) by (apply (lower_branch_defs E e _ _ _ _ _ L); reflexivity).
+  destruct (resolved_placed code R ext B C0 _ ext_range Nd CA HB HS) as [P LR].
+  destruct (value_runs w R E lo Hw HwE code cmem _ LR e rout st C0 st' B m L P Lo V Hr) as [Rn [A O]].
+  split; [exact Rn|]. split; [|exact A].
+  apply oval_st_inv in O. destruct O as [_ O]. symmetry. exact O.
 Qed.
 End Top.
 
-(* the semantics does not look at the stack top *)
-Lemma sval_with_top w R E t m o : sval w R (with_top E t) m o = sval w R E m o.
-Proof. induction o as [z|i|op x IHx y IHy]; cbn [sval]; [reflexivity | reflexivity | now rewrite IHx, IHy]. Qed.
-Lemma beval_with_top w R E t m e : beval w R (with_top E t) m e = beval w R E m e.
-Proof.
-  induction e as [b|j|op a b|e IH|e1 IH1 e2 IH2|e1 IH1 e2 IH2]; cbn [beval];
-    rewrite ?sval_with_top, ?IH, ?IH1, ?IH2; reflexivity.
-Qed.
-Lemma run_mem_with_top w R E t e : forall m, run_mem w R (with_top E t) e m = run_mem w R E e m.
-Proof.
-  induction e as [b|j|op a b|e IH|e1 IH1 e2 IH2|e1 IH1 e2 IH2]; intros m; cbn [run_mem];
-    rewrite ?beval_with_top, ?IH, ?IH1, ?IH2; reflexivity.
-Qed.
-Lemma vars_ok_with_top w R E t m e : vars_ok w R E m e -> vars_ok w R (with_top E t) m e.
-Proof.
-  induction e as [b|j|op a b|e IH|e1 IH1 e2 IH2|e1 IH1 e2 IH2]; cbn [vars_ok]; try tauto.
-Qed.
-
-Section TopKeep.
+Section Top2.
 Variable w : Z.
 Hypothesis Hw : 2 <= w.
 Variable code : Z -> option instr.
 Variable cmem : mem.
 Variable R : regmap.
 Variable E : env.
+Hypothesis HwE : wsize E = w.
+Variable lo : Z.
 Variable ext : label -> Z.
 Hypothesis ext_range : forall x, 0 <= ext x < Machine.W w.
 Notation act := (Machine.act w code cmem).
+Notation Halts := (HidV.Sphinx.Halts.Halts act).
 Notation runs := (HidV.Sphinx.Halts.runs act).
 
-(* keep = True (e.g. `bool p = e;`): the result byte is reserved on the frame, one byte above
-   the current stack top *)
+(* keep = True (e.g. `bool p = e;`): the result byte is reserved on the frame, one byte above the
+   current stack top; the expression is lowered with the stack top at that byte (E') *)
 Theorem value_lowering_keep_correct e st B m :
   let off := stack_top E + 1 in
+  let E' := with_top E off in
   let C := fst (value_lowering_keep E e st) in
   code_at code B (resolve R ext B C) ->
   0 <= B -> B + size C < Machine.W w ->
-  layout_ok w R m -> vars_ok w R E m e ->
-  slot_ok w R m off 1 ->
-  let v := if beval w R E m e then 1 else 0 in
-  let m'' := Machine.sb (run_mem w R E e m) (FP w R m - off) v in
+  layout_ok w R E' lo m -> vars_ok w R E' lo m e ->
+  slot_ok w R lo (HI w R E' m) m off 1 ->
+  let v := if beval w R E' m e then 1 else 0 in
+  let m'' := Machine.sb (run_mem w R E' e m) (FP w R m - off) v in
   runs (mk B m) [] (mk (B + size C) m'') /\ lb m'' (FP w R m - off) = v.
 Proof.
-  intros off C CA HB HS Lo V [S1 [S2 [S3 S4]]] v m''.
+  intros off E' C CA HB HS Lo V [S1 [S2 [S3 S4]]] v m''.
   assert (Hw1 : 1 <= w) by lia.
-  set (E' := with_top E off).
-  destruct (lowering_correct_gen w Hw code cmem R E' ext ext_range e
+  assert (HwE' : wsize E' = w) by exact HwE.
+  destruct (lowering_correct_gen w Hw code cmem R E' HwE' lo ext ext_range e
               [ASbso (SReg RFp) (SLit (- off)) (SLit 1)] None
               [ASbso (SReg RFp) (SLit (- off)) (SLit 0)] None st B m CA HB HS eq_refl eq_refl) as [A [_ Rn]];
-    try assumption; try (intros L X; discriminate X); try (apply vars_ok_with_top; assumption).
-  unfold E' in A, Rn. rewrite beval_with_top, run_mem_with_top in Rn. rewrite run_mem_with_top in A.
-  set (m' := run_mem w R E e m) in *.
-  pose proof (layout_ok_agree w R Hw m m' Lo A) as Lo'.
-  pose proof (FP_agree w R Hw m m' Lo A) as EF.
-  assert (I' : inb m' (FP w R m - off) 1 = true) by (rewrite (agree_inb w R _ _ _ _ A); exact S3).
+    try assumption; try (intros L X; discriminate X).
+  set (m' := run_mem w R E' e m) in *.
+  pose proof (regs_ok_agree w R lo Hw _ m m' (proj1 Lo) A) as Lo'.
+  pose proof (FP_agree w R lo Hw _ m m' (proj1 Lo) A) as EF.
+  assert (I' : inb m' (FP w R m - off) 1 = true) by (rewrite (agree_inb w R lo _ _ _ _ _ A); exact S3).
   assert (Ad : Machine.sgn w (FP w R m') + Machine.sgn w (Machine.wrap w (- off)) = FP w R m - off).
-  { rewrite (frame_addr w R Hw m' off Lo' S1). now rewrite EF. }
+  { rewrite (frame_addr w R lo Hw m' off Lo' S1). now rewrite EF. }
   assert (W1 : Machine.wrap w 1 = 1) by (apply (wrap_small w); pose proof (W_ge w Hw1); unfold inrange; lia).
   assert (W0 : Machine.wrap w 0 = 0) by (apply (wrap_small w); pose proof (W_ge w Hw1); unfold inrange; lia).
   split.
   - specialize (Rn m''). unfold m'', v in *. clear m'' v.
-    destruct (beval w R E m e); apply Rn; cbn [run_simple]; unfold step_simple; cbn [res_ins res_sym regaddr exec val mm];
-      rewrite (lo_if w R m' Lo'); change (Machine.lw w m' (a_fp R)) with (FP w R m');
+    destruct (beval w R E' m e); apply Rn; cbn [run_simple]; unfold step_simple; cbn [res_ins res_sym regaddr exec val mm];
+      rewrite (lo_if w R lo m' Lo'); change (Machine.lw w m' (a_fp R)) with (FP w R m');
       rewrite Ad; unfold store; cbn [mm]; rewrite I'; unfold nxtm; cbn [mm pc].
     + rewrite W1. reflexivity.
     + rewrite W0. reflexivity.
-  - unfold m''. rewrite lb_sb_same. unfold v. destruct (beval w R E m e); reflexivity.
+  - unfold m''. rewrite lb_sb_same. unfold v. destruct (beval w R E' m e); reflexivity.
 Qed.
-End TopKeep.
+
+(* truth_is_defeat, STATIC defeat: the lowered code halts iff the expression is true; otherwise it
+   falls through silently with only r0, r1 and the temporaries changed *)
+Theorem truth_is_defeat_correct e st B m :
+  let C := fst (lower_defeat E false e st) in
+  code_at code B (resolve R ext B C) ->
+  0 <= B -> B + size C < Machine.W w ->
+  layout_ok w R E lo m -> vars_ok w R E lo m e -> bool_norm w R E m e ->
+  (beval w R E m e = true -> Halts (mk B m)) /\
+  (beval w R E m e = false ->
+     exists m', runs (mk B m) [] (mk (B + size C) m') /\ agree w R lo (HI w R E m) m m').
+Proof.
+  intros C CA HB HS Lo V N.
+  destruct (lower_defeat E false e st) as [C0 st'] eqn:L. cbn [fst] in C. subst C.
+  destruct (lower_defeat_defs E false e st C0 st' L) as [_ [_ Nd]].
+  destruct (resolved_placed code R ext B C0 _ ext_range Nd CA HB HS) as [P LR].
+  exact (defeat_static_runs w R E lo Hw HwE code cmem _ LR e st C0 st' B m L P Lo V N).
+Qed.
+(* truth_is_defeat, VIRTUAL defeat, when the handler never halts *)
+Theorem truth_is_defeat_virtual_correct e st B m :
+  let C := fst (lower_defeat E true e st) in
+  let hd := Machine.lw w m (a_defeat R) in
+  code_at code B (resolve R ext B C) ->
+  0 <= B -> B + size C < Machine.W w ->
+  layout_ok w R E lo m -> vars_ok w R E lo m e -> bool_norm w R E m e -> defeat_ok w R E lo m ->
+  (forall m', agree w R lo (HI w R E m) m m' -> ~ Halts (mk hd m')) ->
+  (beval w R E m e = true -> exists m', agree w R lo (HI w R E m) m m' /\ runs (mk B m) [] (mk hd m')) /\
+  (beval w R E m e = false -> (forall m', agree w R lo (HI w R E m) m m' -> ~ Halts (mk (B + size C) m')) ->
+     exists m', agree w R lo (HI w R E m) m m' /\ runs (mk B m) [] (mk (B + size C) m')).
+Proof.
+  intros C hd CA HB HS Lo V N Dk Nh.
+  destruct (lower_defeat E true e st) as [C0 st'] eqn:L. cbn [fst] in C. subst C.
+  destruct (lower_defeat_defs E true e st C0 st' L) as [_ [_ Nd]].
+  destruct (resolved_placed code R ext B C0 _ ext_range Nd CA HB HS) as [P LR].
+  exact (defeat_virtual_runs w R E lo Hw HwE code cmem _ LR e st C0 st' B m L P Lo V N Dk Nh).
+Qed.
+(* one virtual test, all three cases, with no assumption on the handler or the continuation *)
+Theorem truth_is_defeat_virtual_test e st B m : is_test e ->
+  let C := fst (lower_defeat E true e st) in
+  let hd := Machine.lw w m (a_defeat R) in
+  code_at code B (resolve R ext B C) ->
+  0 <= B -> B + size C < Machine.W w ->
+  layout_ok w R E lo m -> vars_ok w R E lo m e -> bool_norm w R E m e -> defeat_ok w R E lo m ->
+  exists m1, agree w R lo (HI w R E m) m m1 /\ exists q, runs (mk B m) [] (mk q m1) /\ q + 2 = B + size C /\
+    (beval w R E m e = true -> runs (mk q m1) [] (mk hd m1)) /\
+    (beval w R E m e = false -> ~ Halts (mk (q + 2) m1) -> runs (mk q m1) [] (mk (q + 2) m1) /\ ~ Halts (mk q m1)) /\
+    (beval w R E m e = false -> Halts (mk (q + 2) m1) -> runs (mk q m1) [] (mk hd m1)).
+Proof.
+  intros Ts C hd CA HB HS Lo V N Dk.
+  destruct (lower_defeat E true e st) as [C0 st'] eqn:L. cbn [fst] in C. subst C.
+  destruct (lower_defeat_defs E true e st C0 st' L) as [_ [_ Nd]].
+  destruct (resolved_placed code R ext B C0 _ ext_range Nd CA HB HS) as [P LR].
+  exact (defeat_virtual_test w R E lo Hw HwE code cmem _ LR e Ts st C0 st' B m L P Lo V N Dk).
+Qed.
+
+(* DESIGN C09 item 6: the three lowerings of one boolean expression decide the same truth value
+   b = beval e: the value lowering leaves b (as 0/1) in the register, the branch lowering goes
+   to T iff b, the defeat lowering halts iff b (and otherwise falls through) *)
+Theorem three_lowerings_agree e m (b := beval w R E m e) :
+  layout_ok w R E lo m -> vars_ok w R E lo m e -> bool_norm w R E m e ->
+  (* value *)
+  (forall rout st B, let C := fst (value_lowering E e rout st) in
+     code_at code B (resolve R ext B C) -> 0 <= B -> B + size C < Machine.W w -> rout = R0 \/ rout = R1 ->
+     exists m', runs (mk B m) [] (mk (B + size C) m') /\ Machine.lw w m' (regaddr R rout) = (if b then 1 else 0)) /\
+  (* branch *)
+  (forall T F st B, let C := fst (lower_branch E e (goto T) (goto F) st) in
+     code_at code B (resolve R ext B C) -> 0 <= B -> B + size C < Machine.W w -> below st T -> below st F ->
+     exists m', runs (mk B m) [] (mk (if b then ext T else ext F) m')) /\
+  (* defeat *)
+  (forall st B, let C := fst (lower_defeat E false e st) in
+     code_at code B (resolve R ext B C) -> 0 <= B -> B + size C < Machine.W w ->
+     if b then Halts (mk B m) else exists m', runs (mk B m) [] (mk (B + size C) m')).
+Proof.
+  intros Lo V N. split; [|split].
+  - intros rout st B C CA HB HS Hr.
+    destruct (value_lowering_correct w Hw code cmem R E HwE lo ext ext_range e rout st B m CA HB HS Lo V Hr) as [Rn [Lv _]].
+    eexists. split; [exact Rn | exact Lv].
+  - intros T F st B C CA HB HS BT BF.
+    destruct (branch_lowering_correct w Hw code cmem R E HwE lo ext ext_range e T F st B m CA HB HS BT BF Lo V) as [Rn _].
+    eexists. exact Rn.
+  - intros st B C CA HB HS.
+    destruct (truth_is_defeat_correct e st B m CA HB HS Lo V N) as [Ht Hf]. fold b in Ht, Hf.
+    destruct b; [apply Ht; reflexivity | destruct (Hf eq_refl) as [m' [Rn _]]; exists m'; exact Rn].
+Qed.
+End Top2.
+
+(* ================================================================================= *)
+(* temps_needed is what the model really uses                                          *)
+(* ================================================================================= *)
+(* frame offsets of the `swso [fp], -off, _` lines (the pushes) *)
+Fixpoint store_offs (l : list aline) : list Z :=
+  match l with
+  | [] => []
+  | AInstr (ASwso (SReg RFp) (SLit z) _) :: r => (- z) :: store_offs r
+  | _ :: r => store_offs r
+  end.
+Lemma store_offs_app a b : store_offs (a ++ b) = store_offs a ++ store_offs b.
+Proof.
+  induction a as [|x r IH]; [reflexivity|]. cbn [app store_offs].
+  destruct x as [l|[t| |c a0 b0|d b0 o|d b0 o|op d a0 b0|d v|b0 o v|b0 o v]]; try exact IH.
+  destruct b0 as [z|[]|l]; try exact IH; destruct o as [z|r0|l]; try exact IH. cbn [app]. now rewrite IH.
+Qed.
+Lemma pop_value_stores r b : store_offs (fst (pop_value r b)) = [].
+Proof. destruct b; reflexivity. Qed.
+Lemma zmul_mono (a b : nat) (ws : Z) : 0 <= ws -> (a <= b)%nat -> Z.of_nat a * ws <= Z.of_nat b * ws.
+Proof. intros H L. apply Z.mul_le_mono_nonneg_r; lia. Qed.
+
+Theorem eval_opd_stores E o : 0 < wsize E -> forall top r keep,
+  let offs := store_offs (fst (eval_opd E top r o keep)) in
+  let T := top + Z.of_nat (temps o keep) * wsize E in
+  Forall (fun off => top < off <= T) offs /\ (temps o keep <> 0%nat -> In T offs).
+Proof.
+  intros Hws. set (ws := wsize E) in *.
+  assert (Fin : forall (top : Z) (r : reg) (keep : bool) (cd : list aline) (M : nat),
+            let T := top + Z.of_nat M * ws in
+            (if keep then 1 <= M else 0 <= M)%nat ->
+            Forall (fun off => top < off <= T) (store_offs cd) ->
+            Forall (fun off => top < off <= T) (store_offs (fst (finish_opd E top r keep cd))) /\
+            ((In T (store_offs cd) \/ (keep = true /\ M = 1%nat)) -> In T (store_offs (fst (finish_opd E top r keep cd))))).
+  { intros top r keep cd M T HM F. unfold finish_opd. fold ws. destruct keep; cbn [fst].
+    - rewrite store_offs_app. cbn [store_offs]. split.
+      + apply Forall_app. split; [exact F|]. constructor; [|constructor].
+        pose proof (zmul_mono 1 M ws ltac:(lia) HM). unfold T. lia.
+      + intros [I|[_ ->]]; apply in_or_app; [left; exact I | right; left; unfold T; lia].
+    - split; [exact F|]. intros [I|[X _]]; [exact I | discriminate]. }
+  induction o as [z|i|op x IHx y IHy|u x IHx]; intros top r keep offs T.
+  - split; [constructor | intros H; exfalso; apply H; reflexivity].
+  - split; [constructor | intros H; exfalso; apply H; reflexivity].
+  - unfold offs, T. cbn [eval_opd temps]. set (kx := negb (is_safe y)).
+    pose proof (eval_opd_bub E x top R0 kx) as Bx.
+    specialize (IHx top R0 kx). destruct (eval_opd E top R0 x kx) as [c1 lb]. cbn [fst snd] in *. subst lb.
+    rewrite top_after_bub. fold ws. set (d := pushed x kx). set (top1 := top + Z.of_nat d * ws).
+    specialize (IHy top1 R1 false). destruct (eval_opd E top1 R1 y false) as [c2 rb]. cbn [fst] in IHy.
+    pose proof (pop_value_stores R1 rb) as P1. destruct (pop_value R1 rb) as [c2' rhs].
+    pose proof (pop_value_stores R0 (bub_of E top R0 x kx)) as P0. destruct (pop_value R0 (bub_of E top R0 x kx)) as [c3 lhs].
+    cbn [fst] in P1, P0. destruct IHx as [Fx Tx]. destruct IHy as [Fy Ty].
+    set (tx := temps x kx) in *. set (ty := temps y false) in *.
+    set (k := if keep then 1%nat else 0%nat).
+    set (M := Nat.max (Nat.max tx (d + ty)) k).
+    assert (Hd : (d <= tx)%nat) by (unfold d, tx, pushed; destruct x, kx; cbn [is_safe negb andb temps]; lia).
+    assert (E2 : Z.of_nat (d + ty) * ws = Z.of_nat d * ws + Z.of_nat ty * ws) by (rewrite Nat2Z.inj_add; ring).
+    pose proof (zmul_mono tx M ws ltac:(lia) ltac:(unfold M; lia)) as L1.
+    pose proof (zmul_mono (d + ty) M ws ltac:(lia) ltac:(unfold M; lia)) as L2.
+    assert (P0d : 0 <= Z.of_nat d * ws) by (apply Z.mul_nonneg_nonneg; lia).
+    set (cd := c1 ++ c2 ++ c2' ++ c3 ++ [AInstr (AArith (arith_instr op) r lhs rhs)]).
+    assert (So : store_offs cd = store_offs c1 ++ store_offs c2).
+    { unfold cd. rewrite !store_offs_app, P1, P0. cbn [store_offs app]. now rewrite !app_nil_r. }
+    destruct (Fin top r keep cd M) as [F1 F2].
+    + unfold M, k. destruct keep; lia.
+    + rewrite So. apply Forall_app. split.
+      * eapply Forall_impl; [|exact Fx]. cbn beta. intros off H. lia.
+      * eapply Forall_impl; [|exact Fy]. cbn beta. unfold top1. intros off H. lia.
+    + split; [exact F1|]. intros NM. apply F2.
+      assert (Cs : M = tx \/ (M = (d + ty)%nat /\ ty <> 0%nat) \/ (keep = true /\ M = 1%nat)).
+      { unfold M, k in *. destruct keep; unfold d, pushed in *; destruct (kx && negb (is_safe x)); lia. }
+      destruct Cs as [Cs|[[Cs Nty]|Cs]].
+      * left. rewrite So. apply in_or_app. left. rewrite Cs. apply Tx. lia.
+      * left. rewrite So. apply in_or_app. right. rewrite Cs, E2.
+        replace (top + (Z.of_nat d * ws + Z.of_nat ty * ws)) with (top1 + Z.of_nat ty * ws) by (unfold top1; lia).
+        apply Ty. exact Nty.
+      * right. exact Cs.
+  - unfold offs, T. cbn [eval_opd temps].
+    specialize (IHx top r false). destruct (eval_opd E top r x false) as [c1 b]. cbn [fst] in IHx.
+    pose proof (pop_value_stores r b) as P1. destruct (pop_value r b) as [c2 v]. cbn [fst] in P1.
+    destruct IHx as [Fx Tx]. set (tx := temps x false) in *. set (k := if keep then 1%nat else 0%nat).
+    set (M := Nat.max tx k).
+    pose proof (zmul_mono tx M ws ltac:(lia) ltac:(unfold M; lia)) as L1.
+    set (cd := c1 ++ c2 ++ match u with UNeg => [AInstr (AArith Asub r (SLit 0) v)]
+                                     | UPos => if is_state_of r v then [] else [AInstr (AMov r v)] end).
+    assert (So : store_offs cd = store_offs c1).
+    { unfold cd. rewrite !store_offs_app, P1. destruct u; [|destruct (is_state_of r v)]; cbn [store_offs app]; now rewrite ?app_nil_r. }
+    destruct (Fin top r keep cd M) as [F1 F2].
+    + unfold M, k. destruct keep; lia.
+    + rewrite So. eapply Forall_impl; [|exact Fx]. cbn beta. intros off H. lia.
+    + split; [exact F1|]. intros NM. apply F2.
+      assert (Cs : M = tx \/ (keep = true /\ M = 1%nat)) by (unfold M, k in *; destruct keep; lia).
+      destruct Cs as [Cs|Cs]; [left; rewrite So, Cs; apply Tx; lia | right; exact Cs].
+Qed.
 
 (* ================================================================================= *)
 (* F  satisfiability examples (w = 2, hidc's register layout, a 64-byte state section)  *)
 (* ================================================================================= *)
-Lemma code_at_code_of l : code_at (code_of l) 0 l.
+Lemma code_at_code_of_app l l' : code_at (code_of (l ++ l')) 0 l.
 Proof.
   intros k i H. unfold code_of. rewrite Z.add_0_l.
-  destruct (Z.ltb_spec (Z.of_nat k) 0); [lia|]. now rewrite Nat2Z.id.
+  destruct (Z.ltb_spec (Z.of_nat k) 0); [lia|]. rewrite Nat2Z.id.
+  rewrite nth_error_app1; [exact H|]. apply nth_error_Some. congruence.
 Qed.
+Lemma code_at_code_of l : code_at (code_of l) 0 l.
+Proof. pose proof (code_at_code_of_app l []) as H. now rewrite app_nil_r in H. Qed.
 
 Section Examples.
 Definition ex_zero : mem := mkmem 64 (FMapPositive.PositiveMap.empty Z).
 Lemma wf_ex_zero : wf_mem ex_zero.
 Proof. intros a. unfold getb, ex_zero; cbn [mdata]. rewrite FMapPositive.PositiveMap.gempty. lia. Qed.
-(* fp = 60; int locals a = 5 at 56, b = 7 at 54, c = 0 at 52; bool locals p, q = 0 at 51, 50 *)
-Definition ex_mem : mem := Machine.sw 2 (Machine.sw 2 (Machine.sw 2 ex_zero 2 60) 56 5) 54 7.
+(* fp = 60; int locals a = 5 at 56, b = 7 at 54, c = 2 at 52; bool locals p, q = 0 at 51, 50;
+   the stack top is at frame offset 10 (address 50); temporaries may use [40, 50); the defeat
+   word at 62 *)
+Definition ex_mem : mem := Machine.sw 2 (Machine.sw 2 (Machine.sw 2 (Machine.sw 2 ex_zero 2 60) 56 5) 54 7) 52 2.
 Lemma wf_ex_mem : wf_mem ex_mem.
 Proof. unfold ex_mem. repeat (apply (wf_sw 2); [|lia]). apply wf_ex_zero. Qed.
-Definition ex_env : env := is_you_env 2 3.
-(* a < b and not (p or c >= 3) *)
-Definition ex_e : bexpr := BAnd (BCmp SLt (OVar 0) (OVar 1)) (BNot (BOr (BVar 0) (BCmp SGe (OVar 2) (OLit 3)))).
+Definition ex_regs : regmap := hidc_regs 2 62.
+Definition ex_lo : Z := 40.
+Definition ex_env : env := with_top (is_you_env 2 3) 10.
+(* a + 1 < b * c and not (p or c < -c) *)
+Definition ex_e : bexpr :=
+  BAnd (BCmp SLt (OArith SAdd (OVar 0) (OLit 1)) (OArith SMul (OVar 1) (OVar 2)))
+       (BNot (BOr (BVar 0) (BCmp SLt (OVar 2) (OUn UNeg (OVar 2))))).
 Definition ex_T : label := (LElse, 0%nat).
 Definition ex_F : label := (LEndElse, 0%nat).
 Definition ex_st : lstate := fun _ => 1%nat.
@@ -1237,35 +2346,71 @@ Definition ex_ext (l : label) : Z := match fst l with LElse => 100 | _ => 101 en
 Lemma ex_ext_range x : 0 <= ex_ext x < Machine.W 2.
 Proof. unfold ex_ext. destruct (fst x); vm_compute; split; (discriminate || reflexivity). Qed.
 
-Lemma ex_layout : layout_ok 2 (hidc_regs 2) ex_mem.
-Proof.
-  constructor; try apply wf_ex_mem; try (vm_compute; intro; discriminate); try (vm_compute; reflexivity);
-    try (vm_compute; first [left; intro; discriminate | right; intro; discriminate]);
-    try (vm_compute; split; [intro; discriminate | reflexivity]).
-Qed.
-Lemma ex_slot off n : In (off, n) [(4, 2); (6, 2); (8, 2); (9, 1); (10, 1)] -> slot_ok 2 (hidc_regs 2) ex_mem off n.
+Ltac closed_arith :=
+  repeat match goal with
+  | |- _ /\ _ => split
+  | |- _ <= _ => vm_compute; intro; discriminate
+  | |- _ < _ => vm_compute; reflexivity
+  | |- _ = true => vm_compute; reflexivity
+  | |- _ = _ => vm_compute; reflexivity
+  | |- _ \/ _ => vm_compute; first [left; intro; discriminate | right; intro; discriminate]
+  | |- True => exact I
+  end.
+Lemma ex_regs_ok : regs_ok 2 ex_regs ex_lo ex_mem.
+Proof. constructor; try apply wf_ex_mem; closed_arith. Qed.
+Lemma ex_room : room_ok 2 ex_regs ex_lo 10 ex_mem.
+Proof. constructor; closed_arith. Qed.
+Lemma ex_layout : layout_ok 2 ex_regs ex_env ex_lo ex_mem.
+Proof. split; [apply ex_regs_ok | apply ex_room]. Qed.
+Lemma ex_slot off n : In (off, n) [(4, 2); (6, 2); (8, 2); (9, 1); (10, 1)] -> slot_ok 2 ex_regs ex_lo 50 ex_mem off n.
 Proof.
   intros I. cbn [In] in I.
-  repeat (destruct I as [I|I]; [inversion I; subst; unfold slot_ok, dj; vm_compute;
-    repeat split; try (intro; discriminate); try reflexivity;
-    first [left; intro; discriminate | right; intro; discriminate]|]).
-  contradiction.
+  repeat (destruct I as [I|I]; [inversion I; subst; unfold slot_ok, dj; closed_arith|]). contradiction.
 Qed.
-Lemma ex_vars : vars_ok 2 (hidc_regs 2) ex_env ex_mem ex_e.
+Lemma ex_HI : HI 2 ex_regs ex_env ex_mem = 50.
+Proof. vm_compute. reflexivity. Qed.
+Lemma ex_vars : vars_ok 2 ex_regs ex_env ex_lo ex_mem ex_e.
 Proof.
-  cbn [vars_ok ex_e opd_ok ex_env is_you_env int_off bool_off].
-  repeat split; try (apply ex_slot; vm_compute; tauto); vm_compute; (discriminate || reflexivity).
+  cbn [vars_ok ex_e oexp_ok op_ok ex_env is_you_env with_top int_off bool_off]. rewrite ex_HI.
+  repeat split; try (apply ex_slot; vm_compute; tauto); closed_arith.
+Qed.
+Lemma ex_norm : bool_norm 2 ex_regs ex_env ex_mem ex_e.
+Proof. cbn [bool_norm ex_e]. repeat split. left. vm_compute. reflexivity. Qed.
+
+(* an arithmetic operand with a kept temporary: (a + 1) * (b - c) into r0 *)
+Definition ex_o : iopd := OArith SMul (OArith SAdd (OVar 0) (OLit 1)) (OArith SSub (OVar 1) (OVar 2)).
+Definition ex_oprog : list instr := resolve ex_regs ex_ext 0 (fst (eval_opd ex_env 10 R0 ex_o false)).
+Example arith_lowering_ex :
+  let m' := eval_mem 2 ex_regs ex_env 10 R0 ex_o false ex_mem in
+  HidV.Sphinx.Halts.runs (Machine.act 2 (code_of ex_oprog) (zmem 0)) (mk 0 ex_mem) []
+    (mk (size (fst (eval_opd ex_env 10 R0 ex_o false))) m') /\
+  Machine.lw 2 m' (a_r0 ex_regs) = 30.
+Proof.
+  intros m'.
+  destruct (arith_lowering_correct 2 ltac:(lia) (code_of ex_oprog) (zmem 0) ex_regs ex_env eq_refl ex_lo ex_ext ex_ext_range
+              ex_o 10 R0 false 0 ex_mem) as [Rn [A [Eb [V _]]]].
+  - apply code_at_code_of.
+  - lia.
+  - vm_compute. reflexivity.
+  - left; reflexivity.
+  - apply ex_regs_ok.
+  - apply ex_room.
+  - cbn [oexp_ok ex_o op_ok ex_env is_you_env with_top int_off]. replace (FP 2 ex_regs ex_mem - 10) with 50 by (vm_compute; reflexivity).
+    repeat split; try (apply ex_slot; vm_compute; tauto); closed_arith.
+  - vm_compute. intro; discriminate.
+  - rewrite Z.add_0_l in Rn. split; [exact Rn|]. rewrite Eb in V. cbn [bub_of ex_o bub_val regaddr] in V. unfold m'. cbn [ex_regs hidc_regs a_r0] in V |- *. rewrite V.
+    vm_compute. reflexivity.
 Qed.
 
 Definition ex_prog : list instr :=
-  resolve (hidc_regs 2) ex_ext 0 (fst (lower_branch ex_env ex_e (goto ex_T) (goto ex_F) ex_st)).
+  resolve ex_regs ex_ext 0 (fst (lower_branch ex_env ex_e (goto ex_T) (goto ex_F) ex_st)).
 Example branch_lowering_ex :
-  let m' := run_mem 2 (hidc_regs 2) ex_env ex_e ex_mem in
+  let m' := run_mem 2 ex_regs ex_env ex_e ex_mem in
   HidV.Sphinx.Halts.runs (Machine.act 2 (code_of ex_prog) (zmem 0)) (mk 0 ex_mem) [] (mk 100 m') /\
-  agree 2 (hidc_regs 2) ex_mem m'.
+  agree 2 ex_regs ex_lo 50 ex_mem m'.
 Proof.
   intros m'.
-  destruct (branch_lowering_correct 2 ltac:(lia) (code_of ex_prog) (zmem 0) (hidc_regs 2) ex_env ex_ext ex_ext_range
+  destruct (branch_lowering_correct 2 ltac:(lia) (code_of ex_prog) (zmem 0) ex_regs ex_env eq_refl ex_lo ex_ext ex_ext_range
               ex_e ex_T ex_F ex_st 0 ex_mem) as [Rn [A _]].
   - apply code_at_code_of.
   - lia.
@@ -1274,46 +2419,92 @@ Proof.
   - unfold below, ex_st, ex_T, ex_F; cbn [fst snd]; lia.
   - apply ex_layout.
   - apply ex_vars.
-  - split; [|exact A].
-    replace (if beval 2 (hidc_regs 2) ex_env ex_mem ex_e then ex_ext ex_T else ex_ext ex_F) with 100 in Rn
+  - rewrite ex_HI in A. split; [|exact A].
+    replace (if beval 2 ex_regs ex_env ex_mem ex_e then ex_ext ex_T else ex_ext ex_F) with 100 in Rn
       by (vm_compute; reflexivity).
     exact Rn.
 Qed.
 
 Definition ex_if_prog : list instr :=
-  resolve (hidc_regs 2) ex_ext 0 (fst (fst (fst (if_block ex_env ex_e ex_st)))).
+  resolve ex_regs ex_ext 0 (fst (fst (fst (if_block ex_env ex_e ex_st)))).
 Example if_block_lowering_ex :
   HidV.Sphinx.Halts.runs (Machine.act 2 (code_of ex_if_prog) (zmem 0)) (mk 0 ex_mem) []
-    (mk (size (fst (fst (fst (if_block ex_env ex_e ex_st))))) (run_mem 2 (hidc_regs 2) ex_env ex_e ex_mem)).
+    (mk (size (fst (fst (fst (if_block ex_env ex_e ex_st))))) (run_mem 2 ex_regs ex_env ex_e ex_mem)).
 Proof.
-  destruct (if_block_lowering_correct 2 ltac:(lia) (code_of ex_if_prog) (zmem 0) (hidc_regs 2) ex_env ex_ext ex_ext_range
+  destruct (if_block_lowering_correct 2 ltac:(lia) (code_of ex_if_prog) (zmem 0) ex_regs ex_env eq_refl ex_lo ex_ext ex_ext_range
               ex_e ex_st 0 ex_mem) as [Rn _].
   - apply code_at_code_of.
   - lia.
   - vm_compute. reflexivity.
   - apply ex_layout.
   - apply ex_vars.
-  - replace (beval 2 (hidc_regs 2) ex_env ex_mem ex_e) with true in Rn by (vm_compute; reflexivity).
+  - replace (beval 2 ex_regs ex_env ex_mem ex_e) with true in Rn by (vm_compute; reflexivity).
     rewrite Z.add_0_l in Rn. exact Rn.
 Qed.
 
 Definition ex_val_prog : list instr :=
-  resolve (hidc_regs 2) ex_ext 0 (fst (value_lowering ex_env ex_e R0 ex_st)).
+  resolve ex_regs ex_ext 0 (fst (value_lowering ex_env ex_e R0 ex_st)).
 Example value_lowering_ex :
   exists m'', HidV.Sphinx.Halts.runs (Machine.act 2 (code_of ex_val_prog) (zmem 0)) (mk 0 ex_mem) []
                 (mk (size (fst (value_lowering ex_env ex_e R0 ex_st))) m'') /\
-              Machine.lw 2 m'' (a_r0 (hidc_regs 2)) = 1.
+              Machine.lw 2 m'' (a_r0 ex_regs) = 1.
 Proof.
-  destruct (value_lowering_correct 2 ltac:(lia) (code_of ex_val_prog) (zmem 0) (hidc_regs 2) ex_env ex_ext ex_ext_range
-              ex_e R0 ex_st 0 ex_mem) as [Rn Lv].
+  destruct (value_lowering_correct 2 ltac:(lia) (code_of ex_val_prog) (zmem 0) ex_regs ex_env eq_refl ex_lo ex_ext ex_ext_range
+              ex_e R0 ex_st 0 ex_mem) as [Rn [Lv _]].
   - apply code_at_code_of.
   - lia.
   - vm_compute. reflexivity.
   - apply ex_layout.
   - apply ex_vars.
-  - vm_compute. intro; discriminate.
-  - vm_compute. reflexivity.
-  - replace (beval 2 (hidc_regs 2) ex_env ex_mem ex_e) with true in Rn, Lv by (vm_compute; reflexivity).
+  - left; reflexivity.
+  - replace (beval 2 ex_regs ex_env ex_mem ex_e) with true in Rn, Lv by (vm_compute; reflexivity).
     rewrite Z.add_0_l in Rn. eexists. split; [exact Rn | exact Lv].
+Qed.
+
+(* static defeat: the expression is true, so the lowered code halts *)
+Definition ex_def_prog : list instr := resolve ex_regs ex_ext 0 (fst (lower_defeat ex_env false ex_e ex_st)).
+Example truth_is_defeat_ex : HidV.Sphinx.Halts.Halts (Machine.act 2 (code_of ex_def_prog) (zmem 0)) (mk 0 ex_mem).
+Proof.
+  destruct (truth_is_defeat_correct 2 ltac:(lia) (code_of ex_def_prog) (zmem 0) ex_regs ex_env eq_refl ex_lo ex_ext ex_ext_range
+              ex_e ex_st 0 ex_mem) as [Ht _].
+  - apply code_at_code_of.
+  - lia.
+  - vm_compute. reflexivity.
+  - apply ex_layout.
+  - apply ex_vars.
+  - apply ex_norm.
+  - apply Ht. vm_compute. reflexivity.
+Qed.
+
+(* virtual defeat: the handler is an absorbing stub placed right after the lowered code; the
+   defeat word (at 62) holds its address *)
+Definition ex_vcode : list aline := fst (lower_defeat ex_env true ex_e ex_st).
+Definition ex_hd : Z := size ex_vcode.
+Definition ex_vprog : list instr := resolve ex_regs ex_ext 0 ex_vcode ++ [IJ (Imm ex_hd); IHalt].
+Definition ex_vmem : mem := Machine.sw 2 ex_mem 62 ex_hd.
+Example truth_is_defeat_virtual_ex :
+  exists m', HidV.Sphinx.Halts.runs (Machine.act 2 (code_of ex_vprog) (zmem 0)) (mk 0 ex_vmem) [] (mk ex_hd m').
+Proof.
+  assert (Lo : layout_ok 2 ex_regs ex_env ex_lo ex_vmem).
+  { split; constructor; try (unfold ex_vmem; apply (wf_sw 2); [apply wf_ex_mem | lia]); closed_arith. }
+  assert (EH : HI 2 ex_regs ex_env ex_vmem = 50) by (vm_compute; reflexivity).
+  assert (Sl : forall off n, In (off, n) [(4, 2); (6, 2); (8, 2); (9, 1); (10, 1)] -> slot_ok 2 ex_regs ex_lo 50 ex_vmem off n).
+  { intros off n I. cbn [In] in I.
+    repeat (destruct I as [I|I]; [inversion I; subst; unfold slot_ok, dj; closed_arith|]). contradiction. }
+  destruct (truth_is_defeat_virtual_correct 2 ltac:(lia) (code_of ex_vprog) (zmem 0) ex_regs ex_env eq_refl ex_lo ex_ext ex_ext_range
+              ex_e ex_st 0 ex_vmem) as [Ht _].
+  - apply code_at_code_of_app.
+  - lia.
+  - vm_compute. reflexivity.
+  - exact Lo.
+  - cbn [vars_ok ex_e oexp_ok op_ok ex_env is_you_env with_top int_off bool_off]. rewrite EH.
+    repeat split; try (apply Sl; vm_compute; tauto); closed_arith.
+  - cbn [bool_norm ex_e]. repeat split. left. vm_compute. reflexivity.
+  - unfold defeat_ok, dj. rewrite EH. closed_arith.
+  - intros m' _. replace (Machine.lw 2 ex_vmem (a_defeat ex_regs)) with ex_hd by (vm_compute; reflexivity).
+    apply (goto_self_not_halts 2 (code_of ex_vprog) (zmem 0) ex_hd m' (Imm ex_hd)); vm_compute; reflexivity.
+  - destruct Ht as [m' [_ Rn]]; [vm_compute; reflexivity|].
+    replace (Machine.lw 2 ex_vmem (a_defeat ex_regs)) with ex_hd in Rn by (vm_compute; reflexivity).
+    exists m'. exact Rn.
 Qed.
 End Examples.
